@@ -12,2275 +12,815 @@ Definition show_fres (r : fres) : string :=
   end.
 Definition check (rs : list rune) : string := digest (show_fres (format_res rs)).
 Definition full (rs : list rune) : string := show_fres (format_res rs).
-Eval vm_compute in ("<<<M4233>>>" ++ check (runes_of_ascii "
-// top
-	options  // c0a
-
-  // c0b
-  {  LittleEndian 
-	// c2
-  = 
-
-// c3
-true  // c4
-;
-    StringPrefixLenType 
-	    // c6
-		= 	 // c7
-      u32// c8a
-
-	// c8b
-  ; FixedStringPadChar// c10a
-	// c10b
-= 	 // c11
-	  '0'	; 
-// c13
-		}// c14a
-
-// c14b
-	packet// c15a
-    // c15b
-		Logout // c16
-  {
-// c17
-    repeat InMsgkind49
-
-    {// c20
-
-  u8  // c21a
-  // c21b
-
-pad0  // c22
-      ,// c23
-      }
-
-    // c24
-    , 	 // c25
-    	repeat// c26
-	char[  // c27a
-	  // c27b
-    5 ]  
-  // c29
-seqNo
-	// c30
-  , // c31
-    repeat// c32a
-
-  // c32b
-  u8 // c33a
-    // c33b
-    	price// c34
-  ,
-}  
-      // c36
-	packet
-// c37
-	  Party // c38a
-    // c38b
-  	{
-
-    // c39
-	zchar[7// c41a
-	// c41b
-	]// c42
-    Qty// c43
-	,  // c44a
-      // c44b
-  } 
-packet  // c46a
-  	// c46b
-  Logon	// c47
-  { 
-        // c48
-repeat InRef10// c50a
-  // c50b
-    {  string	price// c53a
-    	// c53b
-  ,	// c54a
-  // c54b
-
-	char[] 
-  // c55
-    sym	// c56a
-  	// c56b
-	, // c57
-  repeat // c58a
-    // c58b
-	  Logout	// c59a
-// c59b
-  , // c60
-
-}	// c61
-    , 
-    // c62
-    repeat // c63a
-  // c63b
-	char[ 3// c65a
-    	// c65b
-      ] 
-
-// c66
-
-count 
-  // c67
-  ,
-    // c68
-
-	repeat
-Party// c70
-  , 	 // c71a
-    	// c71b
-char[] 	 // c72a
-    	// c72b
-  tag7
-	,
-// c74
-@rightPad  // c75a
-    // c75b
-    ( 	 // c76a
-		// c76b
-
-'0' )  // c78a
-	// c78b
-	char[  // c79a
-    	// c79b
-
-2
-
-    ] 
-      // c81
-clOrdID
-// c82
-,// c83
-  } packet
-    Order
-    // c86
-
-{ 
-  // c87
-    InTail13// c88
-
-{  // c89
-  Party  
-  // c90
-    	,// c91
-
-}  
-  // c92
-    ,	// c93
-  repeat // c94
-	char[  // c95a
-      // c95b
-	4 
-]  
-      // c97
-    count
-
-    // c98
-
-,	// c99
-  } 
-    // c100
-	  root 	 // c101a
-	// c101b
-	packet	// c102
-
-Cancel{	// c104a
-	// c104b
-Logout
-        // c105
-  ,  // c106a
-	// c106b
-
-@leftPad // c107a
-
-// c107b
-  (
-'0'
-) // c110a
-    	// c110b
-  	char[
-
-    9 	 // c112
-]
-    msgKind 
-,// c115
-string	// c116a
-// c116b
-lastPx  // c117
-
-  ,
-	string	// c119a
-	// c119b
-    tag7 	 // c120a
-	// c120b
-	  ,  
-      // c121
-    zchar[// c122a
-// c122b
-  1 // c123
-    ] 	 // c124
-    OrderId// c125
-      , 
-    // c126
-	repeat
-
-// c127
-    Party 	 // c128a
-    // c128b
-	, // c129
-	u16
-// c130
-    	sym
-    // c131
-	,u16 // c133
-	Acct  @lengthOf(	// c135a
-    	// c135b
-Body  
-      // c136
-)  ,  // c138a
-
-// c138b
-  	match
-// c139
-
-	sym  
-      // c140
-	as
-// c141
-    Body 	 // c142a
-	// c142b
-	{
-
-    [// c144a
-
-  // c144b
-	  24	,
-	44  // c147
-  ]  
-      // c148
-  : Logout// c150a
-// c150b
-
-  ,	// c151
-  160// c152a
-	// c152b
-: 
-Order	,	// c155
-    91 // c156a
-	// c156b
-: Logon
-,  43	// c160
-: 	 // c161
-
-Party 
-// c162
-  ,  // c163
-	  }  // c164
-  	, u16
-
-    Tail	// c167
-    @calculatedFrom(	// c168a
-
-	// c168b
-  	""CRC32""  )  // c170a
-	// c170b
-, // c171
-    }  // c172
-")).
-Eval vm_compute in ("<<<M4122>>>" ++ check (runes_of_ascii "
-root packet	o
-{ 
-@lengthOf(BodyLength
-	) uint64
-string_
-	@calculatedFrom(
-
-""a\""b""
-)
-    ,repeat tag
-	{
-    match  crc
-    as
-
-lengthOf 
-{ 
-""{,}""
-
-    : 
-//	t
-  	i8i8  , 255
-
-    :trueish  
-  // c
-  	/// triple
-[
-    10 
-    // @lengthOf(
-	, 1
-    ,
-    // " ++ [128512]%N ++ runes_of_ascii " emoji
-    ""abc""
-	, 0123456789
-
-    , 4294967296
-,
-
-    00 ]:
-
-body  }
-,
-	int32
-    uint8x @calculatedFrom( 
-""// no comment"" ) 
-,  // @lengthOf(
-	zchar[
-3 ] msg_type
-    ``	,
-	repeat float32
-pack`it's`  //
-	  ,
-    }
-,
-
-match u	as	_x 
-{00	: calculatedFrom, 255 // @lengthOf(
-  : 
-float
-	, 
-""\n""
-
-:
-	repeatCount
-    ,
-	} ,  @tag( 3) match
-        // c
-  //
-    A 
-as
-
-Z9_ {
-""a\\"" 
-: //x
-
-  rootA ""// no comment""
-
-    : f32a,  [
-
-    ""x y""
-]
-:i64_ }
-    ,
-x_y_z
-
-, int32
-
-f32a 
-,// packet A { u8 x, }
-@leftPad()
-    f32
-    roots
-	,
-
-    @lengthOf( packetx
-    ) 
-@tag(
-
-255
-	)  // c
-    	@tag(
-
-3 )  i32 
-string_
-
-    @calculatedFrom( 
-      //	t
-
-  // packet A { u8 x, }
-  """ ++ [128512]%N ++ runes_of_ascii """ ) `doc`,@leftPad  ( 
-) int8
-    trueish  // `tick` ""quote"" 'q'
-	@lengthOf(
-    uint8x 
-    /// triple
-	// " ++ [27880; 37322]%N ++ runes_of_ascii "
-  )
-,zchar[
-007 ]
-    tag @calculatedFrom(
-""{,}""
-
-),
-
-}	packet leftPad {	string
-
-    Foo , metadata 
-      //	t
-	// " ++ [128512]%N ++ runes_of_ascii " emoji
-u8x
-
-    ,
-
-    msg_type	// c
-`
-`
-
-,
-    @leftPad
-()repeat
-    metadata { 
-      //x
-  //	t
-  char[] 
-      // a // b
-	// packet A { u8 x, }
-	i8i8  @calculatedFrom(
-""CRC32"")
-
-,
-char[
-	1
-
-    ]
-
-rootA
-	,match falsey
-	as  zchar
-
-{
-
-4294967296 
-:
-
-    leftPad }
-, // c
-	char[/// triple
-	007
-    ]
-
-stringy  @lengthOf( 
-    /// triple
-  i64_ )  `a\`  ,	// packet A { u8 x, }
-  }	, @rightPad	(
-	'0' ) @lengthOf(
-    /// triple
-    x
-
-    )
-
-    @calculatedFrom(""1""	)
-repeat	roots,
-char[]int @calculatedFrom(
-""" ++ [128512]%N ++ runes_of_ascii """
-    )
-    `a\`,  zchar[
-
-42
-
-    ]
-	stringy ,
-
-@lengthOf(
-
-    chars
-    )
-char[ 255  ]int 
-,crc	@lengthOf(  falsey )
-	`line1
-line2`
-	,  } 
-// trailing space 
- 
-")).
-Eval vm_compute in ("<<<M3665>>>" ++ check (runes_of_ascii "
-
-  options
-{  msg_type =
-""{,}"" ;
-
-    asx = true; 
-trueish	= 
-""// no comment"" 
-Pad =
-
-    ""\n""
-;	metadata=
-	uint64  ; } root	// @lengthOf(
-packet
-    // @lengthOf(
-	// c
-  int
-
-{ @tag(0123456789 ) 
-@tag( 	 //	t
-    00)
-    @calculatedFrom(""packet""  ) zchar[ 4294967296 ]
-leftPad
-
-    `line1
-line2`
-
-    ,
-	@calculatedFrom(
-
-""x y""
-)
-    falsey @calculatedFrom(	""x y"" 
-
-//
-	// `tick` ""quote"" 'q'
-	) , repeat
-
-uint8
-Packet  ,
-
-@tag(	4294967296
-) u8x
-,
-
-    repeat
-	char[
-42	]
-	Logon`it's`, 
-int16 falsey
-    @calculatedFrom(""it's"" )  
-  //
-
-, msg_type	@lengthOf(leftPad 
-) 
-        /// triple
-
-`" ++ [28040; 24687; 31867; 22411]%N ++ runes_of_ascii "`
-
-, match  string_
-as 
-charz
-
-    { 
-    //
-""it's""  :Foo
-
-    ,0123456789
-    :
-	calculatedFrom 
-""// no comment""
-	:T ,
-	[""// no comment""
-
-    , 65535 , 
-""a\\""
-,  ""abc"" 
-,
-007
-,// " ++ [27880; 37322]%N ++ runes_of_ascii "
-    ""// no comment"" ,  4294967296
-]
-: Z9_	} 
-	// packet A { u8 x, }
-	,
-float64
-charz@lengthOf(  Z9_)	`a\`, }
-packet 
-a1
-	{
-}  packet  T
-{}
-packet i64_  { repeat
-	zchar[65535
-
-]
-	Logon ,	@calculatedFrom( ""CRC32""	// " ++ [128512]%N ++ runes_of_ascii " emoji
-) repeat
-string  stringy`crlf
-line`
-, repeat char[ 007
-
-]
-
-leftPad
-
-,
-	@calculatedFrom( 
-    //
-""abc""	)
-string
-	calculatedFrom	`two words`  , len
-
-{ 
-        // `tick` ""quote"" 'q'
-  float64
-    lengthOf
-
-`" ++ [28040; 24687; 31867; 22411]%N ++ runes_of_ascii "` 
-    // " ++ [27880; 37322]%N ++ runes_of_ascii "
-    	// packet A { u8 x, }
-	,
-}  ,
-
-A @calculatedFrom( 
-""abc"" )
-
-    `line1
-line2`
-,
-
-zchar[	10
-]
-
-    charz
-
-`" ++ [28040; 24687; 31867; 22411]%N ++ runes_of_ascii "`
-	,  repeat 
-Packet
-
-, 
-      // packet A { u8 x, }
-	string As
-
-@lengthOf(
-	roots
-
-    ),
-@tag( 7)Packet chars,
-    //x
-    // trailing space 
-
-  }
-
-")).
-Eval vm_compute in ("<<<M4088>>>" ++ check (runes_of_ascii "
-packet
-
-a1 {@lengthOf(
-
-f32a )
-
-    repeat
-    u64
-	string_
-    ,
-    @calculatedFrom(  """" 
-)
-	repeat
-i16
-
-    tag
-	`u8 x,`
-,
-@tag(
-
-    42  ) @calculatedFrom( 
-""a\\""  )  @calculatedFrom( ""\" ++ [233]%N ++ runes_of_ascii """ ) zchar[
-    10]
-	Foo ,
-    char[ 42 
-        //	t
-    ]
-
-    body`// not a comment` ,	}MetaData 
-roots  {
-uint64
-Z9_
-`{ , }`	, char[] charz
-	`doc`
-
-    ,
-
-uint16  u128 `u8 x,` ,zchar[4294967296  // trailing space 
-]len,  float32
-
-stringy,
-	}packet
-Z9_
-    { 
-@leftPad	( 
-'\x00' 
-)
-@tag( 42  )
-
-@tag( 7)roots
-    x ,
-    @lengthOf(
-int
-
-) crc 
-zchar
-    //	t
-	//
-,  }
-packet string_  {u8 Pad 
-
-// c
-	// " ++ [128512]%N ++ runes_of_ascii " emoji
-	,
-
-    u64
-chars	,@lengthOf(
-
-    Logon
-)	pack
-    , 
-@leftPad 
-()@rightPad	//
-		(
-
-    ' ' )
-	@calculatedFrom( ""a	b"" ) 
-i8 x
-	`crlf
-line`	,
-
-char[ 0123456789	// @lengthOf(
-    	]options1 
-@calculatedFrom( ""{,}""  )`two words`,
-
-    uint64
-	charz`doc`
-
-,
-char[] u128 
-      // packet A { u8 x, }
-	//	t
-	  , @calculatedFrom( ""1"")repeat
-    matchKey{ repeat
-
-    int	o 	 // c
-  ,  }
-
-    ,
-@lengthOf( calculatedFrom
-	)@rightPad  ( 
-'\x00'
-)	@tag( 00
-) MetaDataX 
-{ uint32
-	BodyLength
-
-, 
-}	, 
-    // trailing space 
-
-//
-}
-    packet lengthOf {
-@calculatedFrom(""" ++ [28040; 24687]%N ++ runes_of_ascii """
-)
-    // trailing space 
-	  // " ++ [27880; 37322]%N ++ runes_of_ascii "
-  repeat
-repeatCount
-
-{
-    repeat char[
-7 ] pack `// not a comment`	, } ,
-
-}")).
-Eval vm_compute in ("<<<M1401>>>" ++ check (runes_of_ascii "options {
-	StringPrefixLenType = u16;
-	ArrayPrefixLenType = u16;
-}
-
-packet SampleBinary {
-    uint16 MsgType `" ++ [28040; 24687; 31867; 22411]%N ++ runes_of_ascii "`,
-    u16 BodyLenght @lengthOf(Body) `" ++ [28040; 24687; 20307; 38271; 24230]%N ++ runes_of_ascii "`,
-    match MsgType as Body {
-        1 : Logon,
-        2 : Logout,
-        3 : Heartbeat,
-        4 : RiskControlRequest,
-        5 : RiskControlResponse,
-    },
-        @calculatedFrom(""CRC32"")
-    u32 Ckecksum `" ++ [26657; 39564; 21644]%N ++ runes_of_ascii "`,
-}
-
-packet Logon {
-     @leftPad('0')
-    char[10] UserName `" ++ [29992; 25143; 21517]%N ++ runes_of_ascii "`,
-    string Password `" ++ [23494; 30721]%N ++ runes_of_ascii "`,
-    uint64 ClientId `" ++ [23458; 25143; 31471]%N ++ runes_of_ascii "ID`,
-    u16 HeartbeatInterval `" ++ [24515; 36339; 38388; 38548]%N ++ runes_of_ascii "`,
-}
-
-packet Logout {
-      @rightPad('0')
-    char[10] UserName `" ++ [29992; 25143; 21517]%N ++ runes_of_ascii "`,
-    uint64 ClientId `" ++ [23458; 25143; 31471]%N ++ runes_of_ascii "ID`,
-}
-
-packet Heartbeat {
-}
-
-packet RiskControlRequest {
-    string UniqueOrderId `" ++ [21807; 19968; 35746; 21333; 21495]%N ++ runes_of_ascii "`,
-    char[16] ClOrdID `" ++ [23458; 25143; 35746; 21333; 21495]%N ++ runes_of_ascii "`,
-    char[3] MarketID `" ++ [24066; 22330]%N ++ runes_of_ascii "id`,
-    char[12] SecurityID `" ++ [35777; 21048; 20195; 30721]%N ++ runes_of_ascii "`,
-    char Side `" ++ [20080; 21334; 26041; 21521]%N ++ runes_of_ascii "`,
-    char OrderType `" ++ [35746; 21333; 31867; 22411]%N ++ runes_of_ascii "`,
-    u64 Price `" ++ [20215; 26684]%N ++ runes_of_ascii "`,
-    u32 Qty `" ++ [25968; 37327]%N ++ runes_of_ascii "`,
-    repeat string ExtraInfo `" ++ [38468; 21152; 20449; 24687]%N ++ runes_of_ascii "`,
-    repeat SubOrder {
-    		char[16] ClOrdID `" ++ [23376; 35746; 21333; 21495]%N ++ runes_of_ascii "`,
-    		u64 Price `" ++ [23376; 35746; 21333; 20215; 26684]%N ++ runes_of_ascii "`,
-    		u32 Qty `" ++ [23376; 35746; 21333; 25968; 37327]%N ++ runes_of_ascii "`,
-    	},
-}
-
-packet RiskControlResponse {
-    string UniqueOrderId `" ++ [21807; 19968; 35746; 21333; 21495]%N ++ runes_of_ascii "`,
-    i32 Status `" ++ [29366; 24577]%N ++ runes_of_ascii "`,
-    string Msg `" ++ [32467; 26524; 20449; 24687]%N ++ runes_of_ascii "`,
-    repeat Detail,
-}
-
-packet Detail {
-    string RuleName `" ++ [35268; 21017; 21517; 31216]%N ++ runes_of_ascii "`,
-    u16 Code `" ++ [21407; 22240; 20195; 30721]%N ++ runes_of_ascii "`,
-}")).
-Eval vm_compute in ("<<<M1161>>>" ++ check (runes_of_ascii "MetaData body	{ asx stringy  , f64
-// " ++ [27880; 37322]%N ++ runes_of_ascii "
-// c
-As ``	, Foo Logon `a\`
-    // " ++ [27880; 37322]%N ++ runes_of_ascii "
-    ,
-    packetx asx `" ++ [28040; 24687; 31867; 22411]%N ++ runes_of_ascii "` ,u32 matchKey `line1
-line2`
-,
-    u16  chars , } root
-    packet
-    _x //	t
-{match rootA as repeatCount{
-/// triple
-//x
-007 : msg_type /// triple
-[
-4294967296 ,""// no comment""
-    ]
-    : leftPad ,""""
-    :packetx ,0123456789
-    : Logon
-, 10:
-    a1 ,
-    [
-""abc"" , 7 // packet A { u8 x, }
-,
-""CRC32""
-, 0123456789 ,
-255
-    ,""a\""b"" ,""" ++ [128512]%N ++ runes_of_ascii """ ]: len
-    ,}, repeat string trueish , @rightPad ( ) int64 f32a@lengthOf(
-tag  ) ,
-// a // b
-// @lengthOf(
-zchar[ 42 ] lengthOf
-    @lengthOf( tag )`{ , }`
-    ,
-    @tag( 10
-) int32
-//
-//	t
-leftPad `doc`,
-    x_y_z
-    chars
-,@calculatedFrom( ""// no comment""
-)
-    @lengthOf(
-_x ) @lengthOf( matchKey)repeat zchar
-    zchar , @calculatedFrom(/// triple
-""a	b""
-    ) repeat
-Pad i8i8 , @tag( 1
-    // c
-    ) repeat int16 metadata
-    , }	options
-{ T = ""`tick`""
-    // packet A { u8 x, }
-    ;
-    crc
-= '\x00' ; // packet A { u8 x, }
-o=
-    ' ' ;
-    } packet matchKey // trailing space 
-{
-zchar[ 0123456789 ]  crc ,@lengthOf(packetx)
-char[]//	t
-uint8x
-    `say ""hi""`, repeat As A, }
-// c
-")).
-Eval vm_compute in ("<<<M110>>>" ++ check (runes_of_ascii "//	t
-packet// `tick` ""quote"" 'q'
-crc {@tag( /// triple
-10
-) uint16/// triple
-matchKey @calculatedFrom( ""\" ++ [233]%N ++ runes_of_ascii """ ) , @calculatedFrom(
-""x y"" )
-u16
-    // a // b
-    Packet  @calculatedFrom(""" ++ [233]%N ++ runes_of_ascii "t" ++ [233]%N ++ runes_of_ascii """) ,string Pad
-    // @lengthOf(
-    @lengthOf(  roots) ,//x
-@tag( 42 ) repeat float{
-    match
-    // @lengthOf(
-    roots
-//	t
-//
-as Z9_
-    { 42: packetx // c
-, } // a // b
-, Pad { pack , uint32 u, repeat Z9_ {
-    packetx
-float ,
-    } , uint64 msg_type
-    `it's` ,
-} ,Header`" ++ [233]%N ++ runes_of_ascii "`
-    , //	t
-char[]stringy ,}	, match // packet A { u8 x, }
-u as a1 //	t
-{ [ 7
-]// " ++ [27880; 37322]%N ++ runes_of_ascii "
-:	zchar
-    ,[255,""a\""b"",  0123456789 , 4294967296
-    ,
-1
-,
-    42, 0 ]
-:Foo
-    [  ""{,}"" ] : a1 , ""// no comment""
-    :
-A ,0
-    : u8x, 255 : Packet
-}	, repeat i64 chars ,
-repeat char[ 0123456789 ]repeatCount
-,
-body  Foo, @calculatedFrom(
-""\n""
-    )char[]
-int
-    @lengthOf(	len
-    )  , @tag( 3) char[]
-A
-`doc`
-    ,
-}
-packet a1  { @rightPad( '0'  )
-    // `tick` ""quote"" 'q'
-    float // a // b
-@lengthOf(
-stringy
-    ) `doc`
-,} options
-    {	As	= 7 crc = ""{,}""
-    u =""it's"" zchar= '\x00'
-}
-")).
-Eval vm_compute in ("<<<M4081>>>" ++ check (runes_of_ascii "
-root 
-packet	rootA {repeat 
-    //x
-  // c
-	uint32	charz	,} 
-packet 
-Packet
-
-{
-    falsey
-
-    charz
-	`say ""hi""` , 
-    // packet A { u8 x, }
-@tag( 
-7  )BodyLength@calculatedFrom( ""a\""b""
-)
-`line1
-line2`
-
-,}
-	root
-
-    packet
-u 	 //x
-  	{zchar[
-    0
-
-    ] 
-msg_type
-@calculatedFrom(
-	""CRC32""  )
-	`tab	here` 
-,  }
-	packet
-
-    tag
-
-    {	@lengthOf( 
-A )	match x 	 //	t
-	  as
-roots
-
-{
-
-    // `tick` ""quote"" 'q'
-
-	// c
-	"""" :
-tag , 00 	 //x
-
-:  packetx
-
-,
-
-    007
-	:	body
-    """ ++ [28040; 24687]%N ++ runes_of_ascii """ :
-	trueish ,  0	:
-
-    lengthOf  , }  , crc  ,
-    string
-Packet  ,
-
-Pad @calculatedFrom( ""a\""b""  )
-
-    , repeat  Pad 
-{
-match	a1
-	as
-
-    trueish{
-	00
-	:trueish 7 :
-calculatedFrom
-
-    , // c
-    [ """"	]
-
-    :	BodyLength ,  [	7
-] :  BodyLength ,
-
-3
-
-: i64_
-
-    0
-    : Pad
-, } ,
-    } 
-	// " ++ [27880; 37322]%N ++ runes_of_ascii "
-    // a // b
-  , 	 //	t
-      string
-    T
-`line1
-line2`
-    ,
-
-    @rightPad(
-' '
-    )
-rootA
-	{
-
-string 
-x  `doc`
-    ,char[ 0 ]
-Packet 
-@calculatedFrom(
-
-""abc"" )
-, } ,
-    }
-")).
-Eval vm_compute in ("<<<M1196>>>" ++ check (runes_of_ascii "options	{metadata=  char[]
-; asx  =
-    ""// no comment""crc
-    = """ ++ [128512]%N ++ runes_of_ascii """ ;
-    }
-packet int { char[ 1 ] BodyLength // packet A { u8 x, }
-,  u8x `say ""hi""` ,  Pad
-, @rightPad
-(  '\x00'	) trueish @calculatedFrom( """ ++ [233]%N ++ runes_of_ascii "t" ++ [233]%N ++ runes_of_ascii """ ) `// not a comment`
-    ,	repeat body /// triple
-, @lengthOf(
-Z9_) match
-    Header as repeatCount
-{
-255 :
-_x ,
-[ 65535, ""a\""b"" ,
-    7,// trailing space 
-65535  , 10,
-""a\""b""
-    , 007, // " ++ [27880; 37322]%N ++ runes_of_ascii "
-""x y""
-] : MetaDataX
-    4294967296
-:
-    msg_type	""{,}""
-    : f32a , ""`tick`"" :
-asx //	t
-, 007
-    : A,} // packet A { u8 x, }
-,  @calculatedFrom(""1"" ) repeat string// packet A { u8 x, }
-crc ,match rootA as
-MetaDataX { ""1""	:
-MetaDataX , 7 // c
-:trueish ,007 : stringy  , 007
-    : i64_ } ,@rightPad
-( '\x00'// a // b
-)
-a1
-    `u8 x,`
-// c
-// a // b
-, }
-packet	int { repeat i64_
-    // c
-    { chars
-repeatCount
-    , } , } root packet
-//
-// c
-x_y_z {} MetaData  i64_  { // `tick` ""quote"" 'q'
-zchar[ /// triple
-7 ] uint8x , // " ++ [128512]%N ++ runes_of_ascii " emoji
-}
-")).
-Eval vm_compute in ("<<<M4112>>>" ++ check (runes_of_ascii "packet
-    Logon
-
-{
-
-    repeat
-
-    char
-    MetaDataX
-`say ""hi""`	, @lengthOf(
-packetx )char[]
-	repeatCount// `tick` ""quote"" 'q'
-
-`doc`, @leftPad(
-'0'  ) @tag(
-    7 )
-	Header 
-@calculatedFrom(
-""""	// " ++ [128512]%N ++ runes_of_ascii " emoji
-
-  )	,
-	@lengthOf(
-
-    /// triple
-  MetaDataX )match  // trailing space 
-
-x 
-
-    //
-      // trailing space 
-
-	as Header 
-
-// trailing space 
-    //	t
-{	""x y""
-	:
-
-    u8x  // trailing space 
-	,
-
-    """ ++ [128512]%N ++ runes_of_ascii """
-	: 	 /// triple
-charz
-
-,
-""" ++ [233]%N ++ runes_of_ascii "t" ++ [233]%N ++ runes_of_ascii """ :// packet A { u8 x, }
-	_x, [3,// " ++ [27880; 37322]%N ++ runes_of_ascii "
-  00 ] 
-: uint8x 
-,  ""it's""//	t
-:	// `tick` ""quote"" 'q'
-rootA [00,
-65535  //x
-
-  ] :
-	zchar}
-    ,	@calculatedFrom( ""// no comment""
-
-) 
-int32  i64_ ,
-    repeat  // " ++ [128512]%N ++ runes_of_ascii " emoji
-	  body
-
-    {zchar[ 10	] BodyLength`line1
-line2`,
-lengthOf Logon,// @lengthOf(
-  repeat float64 i8i8
-,	char[
-0123456789
-] leftPad  // `tick` ""quote"" 'q'
-    `
-`,
-
-}
-,  repeat 
-char[
-    255
-
-    //
-    ]
-a1 `" ++ [28040; 24687; 31867; 22411]%N ++ runes_of_ascii "`
-
-,
-
-    }
-
-")).
-Eval vm_compute in ("<<<M782>>>" ++ check (runes_of_ascii "packet i8i8  { options1 @calculatedFrom(
-""packet""
-// trailing space 
-/// triple
-) `crlf
-line` ,
-    @rightPad (
-' ' //x
-) string
-lengthOf `" ++ [233]%N ++ runes_of_ascii "` ,u64 string_
-, }
-options { options1  = false; } MetaData u
-    { a1
-    options1,
-lengthOf
-// trailing space 
-//	t
-x_y_z `line1
-line2`
-,// c
-MetaDataX
-rootA
-    , zchar[255 ] len ,
-    char[007 ] int //x
-`say ""hi""`,
-// @lengthOf(
-//
-char[ 4294967296] // `tick` ""quote"" 'q'
-stringy, //	t
-} root packet u8x { Z9_ @lengthOf(	Packet
-    ) ,@calculatedFrom(
-""packet"" ) // a // b
-@rightPad (
-'0' //
-)
-@calculatedFrom( ""it's"" )packetx`" ++ [28040; 24687; 31867; 22411]%N ++ runes_of_ascii "`
-    , float64 Packet
-@calculatedFrom(""`tick`"")
-`a\`
-, @leftPad (
-'0' )  match
-len as rootA {
-    // `tick` ""quote"" 'q'
-    ""x y"": uint8x ""1""
-: asx
-, ""a\""b"" :u8x ,
-    } ,// " ++ [27880; 37322]%N ++ runes_of_ascii "
-@lengthOf( tag
-) trueish As , @lengthOf(falsey ) zchar[1 ] a1 , } root packet
-    body
-{ }")).
-Eval vm_compute in ("<<<M613>>>" ++ check (runes_of_ascii "packet o // @lengthOf(
-{repeat char[
-//	t
-// @lengthOf(
-65535] rootA,	}packet repeatCount {@tag( // c
-10)	@lengthOf( _x )  repeat int64 f32a //	t
-`" ++ [233]%N ++ runes_of_ascii "`
-    ,
-    @leftPad
-('0' )@leftPad(
-' '
-    )
-    @tag(3
-    ) // trailing space 
-o`doc` ,
-    // a // b
-    @calculatedFrom( """"
-)string o , @lengthOf( msg_type
-    // c
-    ) match  A as T { [ ""packet""
-, ""a\\""
-    // " ++ [27880; 37322]%N ++ runes_of_ascii "
-    ,
-    1,10 //
-,""x y"" , 3 ]
-: leftPad ,""packet"" : calculatedFrom, //	t
-[255
-//x
-//x
-]:  o
-    , 42  : int ,}
-    , Z9_
-float `a\`
-,
-    char[] u , @lengthOf(i64_ )	string A@lengthOf( // a // b
-int )
-`it's` , @rightPad
-( '0') roots { pack@lengthOf(
-As )
-`crlf
-line`	,// c
-zchar[ 00 ]zchar
-    @lengthOf( // " ++ [128512]%N ++ runes_of_ascii " emoji
-u8x )	,
-    } , @tag(
-    0 )
-@rightPad (
-)
-    @calculatedFrom( """ ++ [128512]%N ++ runes_of_ascii """ )
-f32a lengthOf
-`{ , }` , }
-// `tick` ""quote"" 'q'
-")).
-Eval vm_compute in ("<<<M4410>>>" ++ check (runes_of_ascii "
-
-  packet	MetaDataX
-    {  T
-    @lengthOf( 
-        //x
-// a // b
-  trueish 
-) ``
-
-,  @rightPad
-(' '	)  repeat
-
-    options1// @lengthOf(
-    A 	 /// triple
-
-`" ++ [233]%N ++ runes_of_ascii "`//x
-	,options1@lengthOf(lengthOf
-
-)
-    // `tick` ""quote"" 'q'
-	`u8 x,`, }
-root
-    packet 
-As
-	{ repeat Logon  `
-` 
-,
-
-    @calculatedFrom(
-""" ++ [28040; 24687]%N ++ runes_of_ascii """)	// packet A { u8 x, }
-
-zchar[ 3] 
-T	,
-match  Foo
-as
-u{
-    [
-	""`tick`""
-]
-	// `tick` ""quote"" 'q'
-		// @lengthOf(
-
-:
-
-As
-
-    ,
-
-}
-    , 
-} packet 	 //	t
-	  charz {@lengthOf( 
-u 
-)
-
-    match
-
-charz	// @lengthOf(
-
-	as
-    zchar  { [
-	    //	t
-    // @lengthOf(
-""" ++ [128512]%N ++ runes_of_ascii """
-
-,
-	""packet""
-]:
-crc
-
-[
-7
-, 
-10
-
-,
-
-7 ,3  // packet A { u8 x, }
-    ,4294967296
-    // trailing space 
-      ,""a\\"" 
-]:	string_
-,
-[ 
-3 ] :As
-10
-:	uint8x ,65535
-	: matchKey ,  }
-,
-
-    } ")).
-Eval vm_compute in ("<<<M272>>>" ++ check (runes_of_ascii "root packet Header {
-int16 repeatCount ,
-    } //x
-root packet len {  match i8i8
-    as// c
-roots{ [""abc"" , 255 ]
-    : Pad, }  ,	@rightPad ( '\x00' ) @lengthOf(	leftPad
-)float32 As `" ++ [28040; 24687; 31867; 22411]%N ++ runes_of_ascii "` , @calculatedFrom( ""1""
-) zchar[  007
-] // " ++ [128512]%N ++ runes_of_ascii " emoji
-stringy @lengthOf( f32a ) ,}
-    // @lengthOf(
-    packet  BodyLength{
-@lengthOf( trueish ) char[
-7 ]
-    falsey
-@calculatedFrom( """ ++ [128512]%N ++ runes_of_ascii """ )	, @calculatedFrom(""a\""b""
-) x`// not a comment` , @lengthOf(chars ) char[ 65535 ]leftPad
-@calculatedFrom(""" ++ [128512]%N ++ runes_of_ascii """
-) , trueish ,
-string lengthOf
-    , }root
-    packet
-_x
-{ match _x as
-uint8x
-{// c
-[""`tick`"" ,
-""packet""] :
-u, [// `tick` ""quote"" 'q'
-007 , ""abc""
-,255
-    , ""\n"" , 7 , // c
-""a	b"" , 0
-    ]
-    :
-    // c
-    Foo	[ 007 , """ ++ [233]%N ++ runes_of_ascii "t" ++ [233]%N ++ runes_of_ascii """ , 0 ]
-:
-x_y_z //	t
-} ,
-}
-")).
-Eval vm_compute in ("<<<M713>>>" ++ check (runes_of_ascii "packet
-    // @lengthOf(
-    leftPad { match body as chars { 7:Pad[ """" ] :
-//x
-// trailing space 
-Pad ,[
-""packet"" , 7 , // trailing space 
-""\" ++ [233]%N ++ runes_of_ascii """ // packet A { u8 x, }
-,	3
-, ""1"" ,	""" ++ [233]%N ++ runes_of_ascii "t" ++ [233]%N ++ runes_of_ascii """, 42 ,
-007
-    ] :calculatedFrom [ ""a\\""  ,
-""`tick`""
-    // " ++ [128512]%N ++ runes_of_ascii " emoji
-    , /// triple
-""it's"" ,// " ++ [27880; 37322]%N ++ runes_of_ascii "
-""CRC32""
-    , ""x y"" ,
-    """ ++ [128512]%N ++ runes_of_ascii """
-// `tick` ""quote"" 'q'
-// trailing space 
-,
-    // trailing space 
-    ""a\\"" ] : falsey , } , @lengthOf(a1 )
-@rightPad ( '\x00' ) i64 matchKey ,
-    @lengthOf( o ) _x { tag
-`say ""hi""` //x
-, }
-    , @calculatedFrom( ""\n"")
-// trailing space 
-//x
-body
-    BodyLength
-//x
-//x
-, u16 // packet A { u8 x, }
-msg_type ,// @lengthOf(
-} packet a1  { zchar[
-    4294967296]u
-    // " ++ [27880; 37322]%N ++ runes_of_ascii "
-    ,string Logon`" ++ [233]%N ++ runes_of_ascii "`
-, }")).
-Eval vm_compute in ("<<<M3833>>>" ++ check (runes_of_ascii "// a // b
-root packet charz {
-    @tag(007)
-    repeat u32 chars,
-    Packet `doc`,
-}
-
-MetaData rootA {
-    char[42] Packet `crlf
-    line`,
-}// c
-
-packet asx {
-    repeat calculatedFrom {
-        asx @lengthOf(chars),
-        repeat string x_y_z `line1
-        line2`,
-        repeat u32 i64_ `it's`,
-        A @lengthOf(Logon) `tab	here`,
-    },
-    uint32 asx @lengthOf(BodyLength),
-    // " ++ [27880; 37322]%N ++ runes_of_ascii "
-    // " ++ [27880; 37322]%N ++ runes_of_ascii "
-    char[0123456789] calculatedFrom,
-    repeat Z9_,
-    match asx as uint8x {
-        // c
-        [""{,}"", ""it's"", 7, ""CRC32""] : msg_type,
-        [1] : u8x,
-        ""CRC32"" : T,
-    },
-    i8 charz @calculatedFrom(""x y"") `" ++ [233]%N ++ runes_of_ascii "`,
-}
-
-MetaData u8x {
-    // " ++ [128512]%N ++ runes_of_ascii " emoji
-    i8 T,
-}")).
-Eval vm_compute in ("<<<M1276>>>" ++ check (runes_of_ascii "packet
-As{
-@lengthOf(
-    chars
-)@leftPad( ' ' )	string
-    leftPad @lengthOf(
-    _x ) , @tag( // " ++ [128512]%N ++ runes_of_ascii " emoji
-00
-    /// triple
-    ) match// " ++ [128512]%N ++ runes_of_ascii " emoji
-A as
-    falsey { // `tick` ""quote"" 'q'
-0:
-i64_ ,
-[ ""x y"", ""a\""b"" , ""it's"" ,""x y""  ,
-007 , ""a	b"" ]// `tick` ""quote"" 'q'
-:roots 65535://x
-stringy , }
-,  zchar[4294967296]
-string_ `it's` , int16 Logon `it's` , @calculatedFrom(""" ++ [233]%N ++ runes_of_ascii "t" ++ [233]%N ++ runes_of_ascii """ )repeat char[]// " ++ [27880; 37322]%N ++ runes_of_ascii "
-stringy `a\` ,repeat
-char[3	] crc , @lengthOf( msg_type )  x { u8x  int`two words` ,
-    i8i8 _x // packet A { u8 x, }
-`
-`
-, int8	Logon@lengthOf(
-    Pad) ,} ,@tag(1 )	i64	string_@calculatedFrom( ""\" ++ [233]%N ++ runes_of_ascii """ ) , // packet A { u8 x, }
-char[]
-    Foo  ,  }
-")).
-Eval vm_compute in ("<<<M470>>>" ++ check (runes_of_ascii "packet
-Packet {
-asx , // a // b
-falsey
-`" ++ [233]%N ++ runes_of_ascii "`,
-    @lengthOf( a1 ) @lengthOf( uint8x ) @calculatedFrom( ""it's"" )
-    match u128 as msg_type {0123456789 : charz , 1 :int // packet A { u8 x, }
-""" ++ [233]%N ++ runes_of_ascii "t" ++ [233]%N ++ runes_of_ascii """:
-    metadata , [// packet A { u8 x, }
-""a	b"",
-// c
-// packet A { u8 x, }
-""1"" , ""\" ++ [233]%N ++ runes_of_ascii """ , 007,
-42
-    // trailing space 
-    , 3, 65535 ,007 // c
-]  :
-chars ,// trailing space 
-""\" ++ [233]%N ++ runes_of_ascii """	:crc	,}
-// packet A { u8 x, }
-/// triple
-,
-    //x
-    repeat u64 float ,
-zchar[ 10
-] Header
-,crc ,
-@calculatedFrom(""" ++ [233]%N ++ runes_of_ascii "t" ++ [233]%N ++ runes_of_ascii """
-    ) @calculatedFrom(
-""\n"") float32  A @lengthOf( Foo ) , string As
-@lengthOf( body), u64 asx
-, uint32
-tag // c
-, }
-")).
-Eval vm_compute in ("<<<M3262>>>" ++ check (runes_of_ascii "// top
-MetaData // c0
-x_y_z // c1a
+Eval vm_compute in ("<<<M1436>>>" ++ check (runes_of_ascii "// top
+options // c0
+{ // c1a
   // c1b
-{ // c2
-char // c3a
-  // c3b
-body // c4
-, // c5a
-  // c5b
-f64 // c6
-i8i8 // c7a
-  // c7b
-`two words` // c8
-, // c9a
-  // c9b
-body // c10
-body `" ++ [28040; 24687; 31867; 22411]%N ++ runes_of_ascii "`
-    // c12
-, } // c14a
+StringPrefixLenType // c2a
+  // c2b
+= u8 ; // c5
+ArrayPrefixLenType = // c7
+u8 ;
+    // c9
+FixedStringPadFromLeft // c10a
+  // c10b
+= true // c12a
+  // c12b
+; FixedStringPadChar // c14a
   // c14b
-root packet chars // c17a
-  // c17b
+= // c15
+' ' ; // c17
+} // c18
+packet Logout
+    // c20
 {
-    // c18
-@lengthOf( // c19a
-  // c19b
-i64_ // c20a
-  // c20b
-) chars , // c23a
+    // c21
+repeat // c22
+string // c23a
   // c23b
-i8i8
-    // c24
-{ // c25a
-  // c25b
-falsey
-    // c26
-@lengthOf( stringy ) // c29a
+Px // c24a
+  // c24b
+, // c25
+repeat // c26a
+  // c26b
+string // c27a
+  // c27b
+seqNo
+    // c28
+, // c29a
   // c29b
-`doc` ,
+InMsgkind64
+    // c30
+{
     // c31
-} // c32
-, x @lengthOf( // c35a
-  // c35b
-A // c36
-) // c37a
-  // c37b
-`crlf
-line`
-    // c38
-, } // c40a
-  // c40b
-")).
-Eval vm_compute in ("<<<M1282>>>" ++ check (runes_of_ascii "packet matchKey{char u128@calculatedFrom( ""CRC32""
-    //x
-    )
-`{ , }`
+uint16 OrderId // c33
+, // c34
+char[] // c35
+count , repeat i32 // c39a
+  // c39b
+venue ,
+    // c41
+} // c42
+, } packet
+    // c45
+Heartbeat
+    // c46
+{ // c47a
+  // c47b
+float32
+    // c48
+tag7 // c49a
+  // c49b
+, repeat InPrice50 // c52
+{ repeat
+    // c54
+char[ 5 ] // c57a
+  // c57b
+lastPx // c58
+,
+    // c59
+InRef42 // c60a
+  // c60b
+{
+    // c61
+u8 // c62a
+  // c62b
+pad0 // c63
+, // c64
+} // c65a
+  // c65b
+, // c66
+uint32 // c67a
+  // c67b
+Acct // c68
+, repeat // c70a
+  // c70b
+Logout , // c72a
+  // c72b
+repeat // c73a
+  // c73b
+char[ 5 ] // c76
+Qty ,
+    // c78
+} // c79
+, repeat
+    // c81
+InSeqno30
+    // c82
+{
+    // c83
+repeat // c84a
+  // c84b
+Logout // c85
+, // c86
+} // c87a
+  // c87b
+, // c88a
+  // c88b
+@leftPad ( // c90a
+  // c90b
+'0' // c91a
+  // c91b
+) // c92a
+  // c92b
+char[ // c93a
+  // c93b
+12 ] Acct , // c97a
+  // c97b
+char[] Side2 // c99a
+  // c99b
+,
+    // c100
+repeat // c101
+string // c102a
+  // c102b
+msgKind // c103a
+  // c103b
 , }
-    MetaData
-    leftPad
-//
-// c
-{ uint8x lengthOf
-// packet A { u8 x, }
-// @lengthOf(
-, o
-    f32a
-// a // b
-/// triple
-,zchar[7 ] Z9_ ,
-}
-packet body {	@tag( 255)
-repeatCount @lengthOf( BodyLength )
-, @tag( 7 ) repeat zchar[ 4294967296]i64_ , match x_y_z	as Header {""`tick`""
-: rootA , }  ,@calculatedFrom(
-""packet""
-    ) rootA
-    {  uint64
-string_
-, char[ // " ++ [27880; 37322]%N ++ runes_of_ascii "
-65535 ] BodyLength	@calculatedFrom(""a\""b"" ) `tab	here`
-    ,
-    int64 pack `line1
-line2`
-    ,}	, }
-")).
-Eval vm_compute in ("<<<M796>>>" ++ check (runes_of_ascii "//
+    // c105
+packet Ack // c107
+{
+    // c108
+Heartbeat // c109
+,
+    // c110
+char[ // c111a
+  // c111b
+8 // c112
+]
+    // c113
+seqNo
+    // c114
+,
+    // c115
+float64
+    // c116
+clOrdID // c117a
+  // c117b
+, } // c119
+packet Trade { // c122
+char[] // c123
+OrderId
+    // c124
+, // c125
+f64 Side2 // c127a
+  // c127b
+, // c128a
+  // c128b
+zchar[ // c129
+8
+    // c130
+]
+    // c131
+f1 ,
+    // c133
+string // c134a
+  // c134b
+Qty // c135
+,
+    // c136
+float64 // c137a
+  // c137b
+seqNo // c138a
+  // c138b
+, // c139a
+  // c139b
+repeat // c140a
+  // c140b
+Logout // c141
+,
+    // c142
+} packet // c144a
+  // c144b
+Order { f32 // c147a
+  // c147b
+OrderId , // c149
+repeat u8
+    // c151
+x
+    // c152
+, // c153
+Ack ,
+    // c155
+zchar[
+    // c156
+7 // c157a
+  // c157b
+]
+    // c158
+Note , // c160
+} root
+    // c162
 packet
-options1 { @leftPad (
-    ) char[ 4294967296] Z9_@lengthOf(i64_ )`" ++ [28040; 24687; 31867; 22411]%N ++ runes_of_ascii "` , }
-    options {} packet len
-{ u16
-    lengthOf , repeat
-    matchKey f32a
-,  string i64_ @calculatedFrom(  ""`tick`""  ) , zchar[ // @lengthOf(
-0
-]
-repeatCount ,stringy , _x {repeat As`crlf
-line`// `tick` ""quote"" 'q'
-, repeat Header MetaDataX,
-match
-    As as asx{
-    [ """ ++ [128512]%N ++ runes_of_ascii """
-// trailing space 
-// " ++ [128512]%N ++ runes_of_ascii " emoji
-] : len }	, repeat
-int16 u8x `say ""hi""`
-    ,}
-    , repeat char[] trueish , u32 tag @calculatedFrom( ""a\\"" ) `two words` , }
+    // c163
+Logon { @rightPad // c166a
+  // c166b
+( // c167
+'\x00' // c168
+)
+    // c169
+char[
+    // c170
+9 // c171
+] // c172a
+  // c172b
+f1 // c173
+, // c174
+}
+    // c175
 ")).
-Eval vm_compute in ("<<<M1085>>>" ++ check (runes_of_ascii "packet// a // b
-u8x{// a // b
-len
-    { o roots , match
-string_// c
-as
-repeatCount { [
-""`tick`"" ,""" ++ [128512]%N ++ runes_of_ascii """
-    ,// " ++ [128512]%N ++ runes_of_ascii " emoji
-7
-,""" ++ [233]%N ++ runes_of_ascii "t" ++ [233]%N ++ runes_of_ascii """ ,
-    10 , ""packet"" ,""\" ++ [233]%N ++ runes_of_ascii """  ] : roots ,[
-10,1 ]
-:
-    leftPad , } ,
-// c
-// c
-u  T // packet A { u8 x, }
-, zchar[ 3 // a // b
-] float `" ++ [28040; 24687; 31867; 22411]%N ++ runes_of_ascii "` ,} ,
-    } MetaData
-asx{ zchar[
-    10 ] BodyLength , roots tag , } MetaData zchar
-{uint64
-chars `" ++ [28040; 24687; 31867; 22411]%N ++ runes_of_ascii "`
-    ,char[]Logon
-, Packet o`crlf
-line` ,
-falsey float,
-    // @lengthOf(
-    char[]
-    uint8x , int  A`it's`, }")).
-Eval vm_compute in ("<<<M4191>>>" ++ check (runes_of_ascii "packet
-
-float// a // b
-	{// c
+Eval vm_compute in ("<<<M1871>>>" ++ check (runes_of_ascii "packet x {
+    len {
+        // " ++ [27880; 37322]%N ++ runes_of_ascii "
+        repeat i32 crc `say ""hi""`,
+        match chars as Packet {
+            0123456789 : Pad,
+            0123456789 : falsey,
+            // " ++ [27880; 37322]%N ++ runes_of_ascii "
+            [4294967296, 3, 4294967296, 0, ""1""] : roots,
+            ""a\\"" : _x,
+            3 : packetx,
+        },
+        repeat string stringy `tab	here`,
+        match roots as lengthOf {
+            ""abc"" : packetx,
+        },
+    },
+    @lengthOf(chars)
+    match rootA as roots {
+        ""\n"" : Packet,
+    },// `tick` ""quote"" 'q'
+    string As `" ++ [28040; 24687; 31867; 22411]%N ++ runes_of_ascii "`,
+    @rightPad('\x00')
+    int64 trueish @lengthOf(lengthOf) `" ++ [233]%N ++ runes_of_ascii "`,
 }
 
-    packet
-u128 
-{@calculatedFrom( ""1""
-    )
-asx
-x_y_z
-`" ++ [28040; 24687; 31867; 22411]%N ++ runes_of_ascii "`
-	, }
+packet len {
+}
 
-    root packet u8x{
-repeat
-uint8x
-T
-    ,
-
-    } packet 
-leftPad{ i64_
-    ,
-
-    @leftPad
-( '0'
-
-)
-	repeat
-tag
-
-    , repeat
-	uint8x
-    {  matchKey  @calculatedFrom(
-""abc""  )
-, string
-charz,
-
-    }// trailing space 
-	,
-@rightPad(
-
-    )zchar[
-	10
-]
-
-charz @calculatedFrom(  """ ++ [128512]%N ++ runes_of_ascii """ )`// not a comment`	,	// trailing space 
-	}
-    // @lengthOf(
-")).
-Eval vm_compute in ("<<<M4350>>>" ++ check (runes_of_ascii "root packet uint8x {
-    @tag(7)
-    @leftPad()
+options {
+    a1 = false
     // a // b
-    repeat Logon {
-        chars @calculatedFrom(""x y"") `tab	here`,
-        match falsey as uint8x {
-            7 : Logon,
-            [""\n"", 42] : repeatCount,
-            10 : x,
-            """ ++ [28040; 24687]%N ++ runes_of_ascii """ : i64_,
-            // c
-        },
-        u128 @calculatedFrom(""a	b"") `crlf
-        line`,
+}
+
+packet Z9_ {
+    repeat zchar[00] options1,
+    @lengthOf(falsey)
+    repeat i8 options1 `two words`,
+    @rightPad()
+    i8 msg_type,
+    char[3] lengthOf `{ , }`,
+    string _x,
+    @leftPad()
+    // c
+    uint16 chars,
+    // @lengthOf(
+    //
+    @lengthOf(crc)
+    @leftPad('0')
+    repeat stringy calculatedFrom,
+    string int `line1
+    line2`,
+    @rightPad(' ')
+    match Foo as rootA {
+        [""packet"", ""a\""b"", """ ++ [128512]%N ++ runes_of_ascii """, """", 42] : u,
+        0 : A,
+        // trailing space 
+        00 : asx,
+        //x
+        // trailing space 
+        0 : x_y_z,
+        ""CRC32"" : i64_,
+        42 : x,
+    },
+    roots {
+        repeat zchar[10] stringy `" ++ [28040; 24687; 31867; 22411]%N ++ runes_of_ascii "`,
     },
 }
 
-packet charz {
-    @lengthOf(Packet)
-    // " ++ [27880; 37322]%N ++ runes_of_ascii "
-    i64 lengthOf `tab	here`,/// triple
+MetaData tag {
+    f32 tag ``,
 }")).
-Eval vm_compute in ("<<<M4381>>>" ++ check (runes_of_ascii "
-options
-{ }
+Eval vm_compute in ("<<<M1678>>>" ++ check (runes_of_ascii "  packet Packet{
+    }
 packet
 
-    crc // " ++ [27880; 37322]%N ++ runes_of_ascii "
-    {	calculatedFrom  {zchar[
+    repeatCount {
 
-7
-]  Logon 
-, // @lengthOf(
-trueish rootA
+    @tag(
+4294967296 ) @lengthOf(
+	A
+	)
 
-    `say ""hi""` 
-      // `tick` ""quote"" 'q'
-	/// triple
-, repeat 
+@lengthOf(
+	float)
+rootA ,
+    @tag(
+	0123456789
+)
+Header
+	`// not a comment`,matchKey
+
+f32a
+    ,
+Pad , 
+repeat  float32	uint8x `" ++ [233]%N ++ runes_of_ascii "`
+,	@leftPad
+
+    (
+'\x00'
+	) repeat
+
+    char[ 
+3 
+]  tag
+
+`
+` ,  repeat
+    pack
+{repeat
+    x{repeat	f64
+    len ,i64_
+
+len  ,  },
+
+    repeatCount 
+	    // `tick` ""quote"" 'q'
+@lengthOf(
+uint8x
+
+)	, match  zchar  as a1
+	{ 
+    // a // b
     // packet A { u8 x, }
-    calculatedFrom
-Z9_	,
-
+    3 :
+u
+,
+} , 	 // packet A { u8 x, }
+repeat
+rootA{ 
+options1 
+{ 
 repeat
 
-MetaDataX
-    { 
-repeat  // " ++ [27880; 37322]%N ++ runes_of_ascii "
-    	char[] int	,
+    body u8x `crlf
+line`
+,
+match
+Z9_  as f32a
+	{ 007 
+:repeatCount  , ""packet""
+    :
+	calculatedFrom
+, 
+    // " ++ [128512]%N ++ runes_of_ascii " emoji
+  10 	 // `tick` ""quote"" 'q'
+  :  /// triple
+		calculatedFrom ,""CRC32""
+    : 
+_x
+
+, [""x y"" ]
+
+:
+i64_
+
+    ,
+	""packet""
+// `tick` ""quote"" 'q'
+
+// a // b
+    	:// `tick` ""quote"" 'q'
+MetaDataX 
+, 
+}
+    // a // b
+    // " ++ [27880; 37322]%N ++ runes_of_ascii "
+
+,
+} , 
+      //x
+  }
+    ,
 
     }
+	, } 
+MetaData  // @lengthOf(
+	asx {
+u trueish
 
-    ,
-	}	,
-rootA
-@calculatedFrom(
+, chars	// c
+		f32a
+`// not a comment` ,
+float64 u128,
 
-    ""it's""
-
-)
-    , match 
-charz
-as body{
-    0123456789
-:
-
-    chars
-
-    ,  } ,	}
-")).
-Eval vm_compute in ("<<<M1035>>>" ++ check (runes_of_ascii "  packet//	t
-leftPad
-// @lengthOf(
-//x
-{  falsey `it's` , Packet u128 , // `tick` ""quote"" 'q'
-float calculatedFrom, zchar[1] options1 @calculatedFrom(
-    ""a\\"" ) , zchar[ 42]As ,
-    @rightPad (
-    )
-    T `say ""hi""`, body
-//x
-//
-Header ,
-    f32 T , @calculatedFrom( """ ++ [233]%N ++ runes_of_ascii "t" ++ [233]%N ++ runes_of_ascii """ ) MetaDataX  Pad `// not a comment`
-    , }	packet u {
-/// triple
-// c
-int16
-Header	`say ""hi""` ,
-    } MetaData options1 {} // trailing space ")).
-Eval vm_compute in ("<<<M3721>>>" ++ check (runes_of_ascii "options
-	{ len  = 255
-tag
-=	""" ++ [233]%N ++ runes_of_ascii "t" ++ [233]%N ++ runes_of_ascii """ }
-packet  packetx	{
-
-} options {
-
-    repeatCount
-=
-
-'\x00'
-
-; x 
-=4294967296 len
-
-=false ;
-	A =
-    false	;  Packet	= """"	// " ++ [27880; 37322]%N ++ runes_of_ascii "
-;
-} MetaData
-x	{
-	    //
-	// `tick` ""quote"" 'q'
-      uint32
-roots
-
-    ,
-	lengthOf o
-	`
+string_ string_  `
 `
 ,
 
-    u32
-x_y_z`line1
-line2`
-,	int64
-msg_type 
-// a // b
-  //
-  	`crlf
-line` ,  string
-repeatCount
-`line1
-line2` 
-,u128 
-stringy
+    }
 
-, }")).
-Eval vm_compute in ("<<<M4016>>>" ++ check (runes_of_ascii "
-
-  MetaData
-
-    len /// triple
-    {//
-f64 T
-
-    `u8 x,`
-	,
-
-    rootA stringy,
-    zchar  repeatCount
-`say ""hi""` ,
-MetaDataX
-	As
-
-    , i8i8 
-string_  ,  x_y_z f32a ,
-	}  options // c
-    {
-
-    Logon
-	    //
-=
-
-string float
-=
-    string
-
-    A =""abc"" /// triple
-	; 
-//
-  A  = ""\" ++ [233]%N ++ runes_of_ascii """	Logon= 7
-}options{ }
-options 
-{  packetx
-	=  ""abc"" // c
-  ;
-
-    x =
-true	}")).
-Eval vm_compute in ("<<<M3762>>>" ++ check (runes_of_ascii "
-// top
-	packet // c0a
-
-	// c0b
-  o  // c1
-
-	{// c2a
-    // c2b
-
-	@tag( // c3a
-    // c3b
-42	// c4a
-	// c4b
-
-)
-    // c5
-  repeat  
-      // c6
-	x	{	char[ 	 // c9a
-  // c9b
-0123456789// c10
-    ] 	 // c11a
-	// c11b
-i64_ 	 // c12a
-
-	// c12b
-    ,  
-      // c13
-  }  , 
-	    // c15
-}	options // c17a
-  // c17b
-		{ 	 // c18a
-  	// c18b
-    }	// c19a
-	// c19b")).
-Eval vm_compute in ("<<<M3815>>>" ++ check (runes_of_ascii "  // a // b
-
-options {	_x=' '
-}
-
-    packet
-    pack
-
-{ } 
 packet
-Foo{ 
-@tag(	10
-)	char	BodyLength@lengthOf(
-_x
-
-)
-
-    `say ""hi""`  /// triple
-  ,zchar[ 42 ]
-    Foo ,
-	match
-
-string_
-    as
-
-    o
-	{
-    0123456789  : 
-u128
-42 : asx ,}
-,// " ++ [27880; 37322]%N ++ runes_of_ascii "
-  match
-    lengthOf
-as body{
-""1""
-:
-
-u128 ,3 :	chars ,00	: T
-, 
+	crc{
+    } ")).
+Eval vm_compute in ("<<<M1435>>>" ++ check (runes_of_ascii "options {
+    StringPrefixLenType = u8;
+    ArrayPrefixLenType = u8;
+    FixedStringPadFromLeft = true;
+    FixedStringPadChar = ' ';
 }
-, 
-// `tick` ""quote"" 'q'
-  }
+packet Logout {
+    repeat string Px,
+    repeat string seqNo,
+    InMsgkind64 {
+        uint16 OrderId,
+        char[] count,
+        repeat i32 venue,
+    },
+}
+packet Heartbeat {
+    float32 tag7,
+    repeat InPrice50 {
+        repeat char[5] lastPx,
+        InRef42 {
+            u8 pad0,
+        },
+        uint32 Acct,
+        repeat Logout,
+        repeat char[5] Qty,
+    },
+    repeat InSeqno30 {
+        repeat Logout,
+    },
+    @leftPad('0') char[12] Acct,
+    char[] Side2,
+    repeat string msgKind,
+}
+packet Ack {
+    Heartbeat,
+    char[8] seqNo,
+    float64 clOrdID,
+}
+packet Trade {
+    char[] OrderId,
+    f64 Side2,
+    zchar[8] f1,
+    string Qty,
+    float64 seqNo,
+    repeat Logout,
+}
+packet Order {
+    f32 OrderId,
+    repeat u8 x,
+    Ack,
+    zchar[7] Note,
+}
+root packet Logon {
+    @rightPad('\x00') char[9] f1,
+}
 ")).
-Eval vm_compute in ("<<<M4118>>>" ++ check (runes_of_ascii "
-
-  root 
-packet
-u {@rightPad
-    ('\x00'  ) 
-Logon@calculatedFrom(
-""{,}"" )
-
-    `" ++ [233]%N ++ runes_of_ascii "`, @tag(
-
-3 
-)
-
-string repeatCount
-,  match
-    packetx // " ++ [128512]%N ++ runes_of_ascii " emoji
-as
-	u8x {65535
-	:
-    i8i8 
-//x
-      , 007	// trailing space 
-:
-    roots // " ++ [27880; 37322]%N ++ runes_of_ascii "
-	  ,
-""a	b""
-	:	BodyLength  //	t
-    ,
-	} ,
-@tag( 00
-)
-
-uint32
-
-repeatCount
-@lengthOf(u128 ) 
-,	} ")).
-Eval vm_compute in ("<<<M1083>>>" ++ check (runes_of_ascii "// a // b
-options {
-_x = ' '	} packet pack { } packet Foo { @tag(10
-)
-char BodyLength @lengthOf(	_x )
-`say ""hi""` /// triple
-, zchar[42 ] Foo ,
-    match string_
-    as
-o {
-0123456789: u128 42
-    :
-    asx,
-} , // " ++ [27880; 37322]%N ++ runes_of_ascii "
-match lengthOf as
-    body
-{ ""1"" : u128
-    , 3 : chars , 00
-    :	T, },
+Eval vm_compute in ("<<<M376>>>" ++ check (runes_of_ascii "packet options1 { repeat  matchKey `doc` , char[] string_
+    // " ++ [27880; 37322]%N ++ runes_of_ascii "
+    `
+`, // packet A { u8 x, }
+uint16 T , repeatCount
+    _x
+    ,} packet msg_type
+    { @lengthOf( Pad
+    )
+asx @calculatedFrom(
+    ""\" ++ [233]%N ++ runes_of_ascii """) ,  @tag( 4294967296
+) Logon `a\`,@tag( 0
+    )
+crc  @lengthOf(charz// " ++ [128512]%N ++ runes_of_ascii " emoji
+) `u8 x,`
+, char[	0	] f32a // " ++ [128512]%N ++ runes_of_ascii " emoji
+,  u8
+    A `line1
+line2`,Z9_ u `{ , }`
+, repeat uint8x `" ++ [28040; 24687; 31867; 22411]%N ++ runes_of_ascii "`	, int8 Packet@calculatedFrom( ""{,}""
+) ,
+    // packet A { u8 x, }
+    } packet A {
+// trailing space 
+// trailing space 
+@tag( 3)@tag(
+    /// triple
+    1
+    )
+u16 A// c
+, @tag(1 )
+match
+//
+// @lengthOf(
+roots as
+pack{ // c
+[
+    ""CRC32"" ] :
+i8i8
+""a\\""
+    : trueish , [ ""{,}"",	""" ++ [28040; 24687]%N ++ runes_of_ascii """ ] :
+    falsey
     // `tick` ""quote"" 'q'
-    }
+    } // a // b
+, @rightPad// packet A { u8 x, }
+( ' ') int16 Packet `
+` , // `tick` ""quote"" 'q'
+repeat zchar[1
+] Pad  , // a // b
+}
 ")).
-Eval vm_compute in ("<<<M1363>>>" ++ check (runes_of_ascii "packet float {	@lengthOf(	pack ) int16 string_ , } options  {
-leftPad
-// c
-/// triple
-= true;  x
-=	int16 Foo
-=
-00 string_
-    = '\x00'
-    ; }root packet Foo {
-packetx
-@lengthOf(
-i8i8 ) `tab	here`
+Eval vm_compute in ("<<<M1744>>>" ++ check (runes_of_ascii "packet Pad {
+    char[007] string_,// @lengthOf(
+    @lengthOf(zchar)
+    string rootA,
+    @lengthOf(T)
+    char trueish @lengthOf(zchar) `line1
+    line2`,
+    repeat f64 calculatedFrom,
+    @calculatedFrom(""it's"")
+    leftPad `it's`,
+    stringy {
+        int8 Packet @lengthOf(metadata) `tab	here`,
+        A,
+        match charz as uint8x {
+            3 : MetaDataX,
+            1 : charz,
+            ""a	b"" : msg_type,
+            //x
+            [0, 10, ""// no comment"", ""\" ++ [233]%N ++ runes_of_ascii """] : A,
+            // @lengthOf(
+            ""\n"" : trueish,
+        },
+    },
+    @calculatedFrom(""a\\"")
+    char[7] u @calculatedFrom(""a\\""),
+    //	t
+    @tag(7)
+    o {
+        As `it's`,
+    },
+}
+
+packet u {
+}
+
+packet stringy {
+    @tag(0123456789)
+    string pack @lengthOf(Pad),
+}")).
+Eval vm_compute in ("<<<M137>>>" ++ check (runes_of_ascii "root packet x_y_z{
+    }packet calculatedFrom {char[] Foo @lengthOf( Pad
+    ) ,} root packet // @lengthOf(
+u128 // @lengthOf(
+{} packet u8x { @lengthOf(asx ) match charz
+    as msg_type { // @lengthOf(
+[ 0123456789
+    ] : i64_	,
+    [ 0]
+: a1  }
+,f32 Pad , //x
+match /// triple
+falsey as BodyLength
+    { """ ++ [233]%N ++ runes_of_ascii "t" ++ [233]%N ++ runes_of_ascii """
+:// trailing space 
+charz 10 :
+    roots ,
+10
+: x_y_z// " ++ [27880; 37322]%N ++ runes_of_ascii "
 ,
-int16
-A ,
+    ""`tick`"" :_x ,""// no comment""
+: chars [
+    10,
+    1
+]:	Foo ,	}	, repeat u64	u8x
+    `doc`
+,
+    @lengthOf(
+body) uint64 options1  `` ,
+@calculatedFrom(
+""a\""b"")
+    // trailing space 
+    match  Packet as x_y_z{[ 007 ]
+    // a // b
+    :
+tag  ,[ ""a\""b"" ] : rootA , //	t
+"""" : x_y_z // " ++ [27880; 37322]%N ++ runes_of_ascii "
+65535 :
+asx  ,	""" ++ [233]%N ++ runes_of_ascii "t" ++ [233]%N ++ runes_of_ascii """ : o  , } , }
+")).
+Eval vm_compute in ("<<<M1457>>>" ++ check (runes_of_ascii "options {
+    LittleEndian = true;
+    FixedStringPadFromLeft = true;
+    FixedStringPadChar = '0';
+}
+packet Trade {
+    string clOrdID,
+    char[] Px,
+    u32 x,
+}
+packet Reject {
+    int32 Side2,
+    repeat char[3] clOrdID,
+    i32 tag7,
+}
+packet Leg {
+}
+root packet Quote {
+    string Side2,
+    string lastPx,
+    InSym58 {
+        int16 OrderId,
+        Reject,
+        i8 Qty,
+        i64 venue,
+        f32 Note,
+    },
+    char[] count,
+    zchar[9] price,
+    u16 Qty,
+    match Qty as Body {
+        69 : Leg,
+        48 : Trade,
+        51 : Reject,
+    },
+    u16 Acct @calculatedFrom(""CRC32""),
+}
+")).
+Eval vm_compute in ("<<<M36>>>" ++ check (runes_of_ascii "root packet
+leftPad { match roots as packetx{
+42 : chars, 255 : f32a , }
+    , @rightPad
+(	' ' ) // @lengthOf(
+charz
+    @lengthOf( packetx ) , i32 u8x  , uint8x
+, } root packet x_y_z { u64 packetx
+@lengthOf( stringy )
+    ,
+    @leftPad// " ++ [27880; 37322]%N ++ runes_of_ascii "
+( ' '
+    ) // packet A { u8 x, }
+@rightPad ( '\x00'
+    ) // trailing space 
+@calculatedFrom(	""\" ++ [233]%N ++ runes_of_ascii """ ) uint8
+MetaDataX@lengthOf(
+    As
+    ) ,@lengthOf(
+rootA ) // c
+float64 uint8x`say ""hi""` ,@leftPad ( ' ' ) repeat float64 Pad ,
+    // packet A { u8 x, }
+    }
+")).
+Eval vm_compute in ("<<<M1674>>>" ++ check (runes_of_ascii "  // c
+    packet  float 	 // `tick` ""quote"" 'q'
+    {
+    match
+tag	as x  // " ++ [128512]%N ++ runes_of_ascii " emoji
+
+  {
+
+""\n""
+    : 
+      // a // b
+    A  ,
+}
+
+    ,
+
+@lengthOf(	o 
+)
+A
+,char[ 
+4294967296]
+
+o@lengthOf( 	 // packet A { u8 x, }
+	a1 )
+    ,	} packet	x{ char[
+3 ] 
+BodyLength ,
+
+} packet	Header  {
 @lengthOf(
-// " ++ [128512]%N ++ runes_of_ascii " emoji
-//
-trueish ) repeat int
-zchar `a\`
-,}
-/// triple
-//
-MetaData body
-{ }
-//
+stringy)@tag(42
+	)
+@calculatedFrom(
+
+""1"" )
+    zchar[
+
+    0123456789
+
+] As @lengthOf( 
+        // a // b
+
+packetx )
+`// not a comment`	,
+}//	t")).
+Eval vm_compute in ("<<<M298>>>" ++ check (runes_of_ascii "// a // b
+packet int  { //	t
+pack
+    // trailing space 
+    @lengthOf(// " ++ [27880; 37322]%N ++ runes_of_ascii "
+leftPad
+// @lengthOf(
+// c
+),
+u128 MetaDataX,	char[] charz
+    // a // b
+    @calculatedFrom(
+""\" ++ [233]%N ++ runes_of_ascii """ ) ,calculatedFrom{
+float
+BodyLength,
+}
+, @calculatedFrom(
+""" ++ [233]%N ++ runes_of_ascii "t" ++ [233]%N ++ runes_of_ascii """
+    )  @lengthOf( MetaDataX) match Logon //
+as  i64_{  [0 ,255 , 10, 7
+    // `tick` ""quote"" 'q'
+    , 0123456789 ]
+    :  asx // " ++ [128512]%N ++ runes_of_ascii " emoji
+}
+,
+    }")).
+Eval vm_compute in ("<<<M2026>>>" ++ check (runes_of_ascii "  // top
+	packet 
+    // c0
+
+o 
+// c1
+
+	{
+	// c2
+@tag( 
+      // c3
+	42 
+      // c4
+  ) 
+  // c5
+    repeat 
+// c6
+
+	x 
+// c7
+
+{
+        // c8
+  char[ 
+// c9
+      0123456789 
+    // c10
+
+] 
+    // c11
+		i64_
+
+    // c12
+	, 
+      // c13
+
+  } 
+    // c14
+		, 
+
+// c15
+}
+    // c16
+  options  
+      // c17
+    	{ 
+      // c18
+    	}
+    // c19
 ")).
-Eval vm_compute in ("<<<M1525>>>" ++ check (runes_of_ascii "root packet Foo // " ++ [128512]%N ++ runes_of_ascii " emoji
-{ } options {
-    // a // b
-    tag // `tick` ""quote"" 'q'
-= //	t
-""""
-    ; u8x = zchar[0  ] }
-MetaData
-    int {zchar[ 10]
-lengthOf lengthOf	`` , i64 u8x`// not a comment` ,MetaDataX pack// `tick` ""quote"" 'q'
-`crlf
-line`
-, Logon charz `crlf
-line`
-    ,
-    // a // b
-    }
-")).
-Eval vm_compute in ("<<<M1487>>>" ++ check (runes_of_ascii "root packet Foo // " ++ [128512]%N ++ runes_of_ascii " emoji
-{ } options {
-    // a // b
-    tag // `tick` ""quote"" 'q'
-= //	t
-""""
-    ; u8x = zchar[0  true }
-MetaData
-    int {zchar[ 10]
-lengthOf	`` , i64 u8x`// not a comment` ,MetaDataX pack// `tick` ""quote"" 'q'
-`crlf
-line`
-, Logon charz `crlf
-line`
-    ,
-    // a // b
-    }
-")).
-Eval vm_compute in ("<<<M1610>>>" ++ check (runes_of_ascii "root packet Foo // " ++ [128512]%N ++ runes_of_ascii " emoji
-{ } options {
-    // a // b
-    tag // `tick` ""quote"" 'q'
-= //	t
-""""
-    ; u8x = zchar[0  ] }
-' MetaData
-    int {zchar[ 10]
-lengthOf	`` , i64 u8x`// not a comment` ,MetaDataX pack// `tick` ""quote"" 'q'
-`crlf
-line`
-, Logon charz `crlf
-line`
-    ,
-    // a // b
-    }
-")).
-Eval vm_compute in ("<<<M1461>>>" ++ check (runes_of_ascii "root packet Foo // " ++ [128512]%N ++ runes_of_ascii " emoji
-{ } options {
-    // a // b
-    tag // `tick` ""quote"" 'q'
-= //	t
-""""
-    u8x ; = zchar[0  ] }
-MetaData
-    int {zchar[ 10]
-lengthOf	`` , i64 u8x`// not a comment` ,MetaDataX pack// `tick` ""quote"" 'q'
-`crlf
-line`
-, Logon charz `crlf
-line`
-    ,
-    // a // b
-    }
-")).
-Eval vm_compute in ("<<<M1424>>>" ++ check (runes_of_ascii "root packet Foo // " ++ [128512]%N ++ runes_of_ascii " emoji
- } options {
-    // a // b
-    tag // `tick` ""quote"" 'q'
-= //	t
-""""
-    ; u8x = zchar[0  ] }
-MetaData
-    int {zchar[ 10]
-lengthOf	`` , i64 u8x`// not a comment` ,MetaDataX pack// `tick` ""quote"" 'q'
-`crlf
-line`
-, Logon charz `crlf
-line`
-    ,
-    // a // b
-    }
-")).
-Eval vm_compute in ("<<<M1419>>>" ++ check (runes_of_ascii "root packet  // " ++ [128512]%N ++ runes_of_ascii " emoji
-{ } options {
-    // a // b
-    tag // `tick` ""quote"" 'q'
-= //	t
-""""
-    ; u8x = zchar[0  ] }
-MetaData
-    int {zchar[ 10]
-lengthOf	`` , i64 u8x`// not a comment` ,MetaDataX pack// `tick` ""quote"" 'q'
-`crlf
-line`
-, Logon charz `crlf
-line`
-    ,
-    // a // b
-    }
-")).
-Eval vm_compute in ("<<<M4158>>>" ++ check (runes_of_ascii "options {
+Eval vm_compute in ("<<<M136>>>" ++ check (runes_of_ascii "options { As
+=char[007 ] ;_x // a // b
+=1
+;
+    matchKey
+    =true
+;
+Logon // trailing space 
+= ' ' ;
+    stringy =/// triple
+zchar[007  ] ;
+    } root
+    packet MetaDataX { //x
+match leftPad
+    as Logon { 255
+    : packetx [0123456789
+    ]
+    : x_y_z
+, 10
+// `tick` ""quote"" 'q'
+// a // b
+: rootA} , }")).
+Eval vm_compute in ("<<<M1434>>>" ++ check (runes_of_ascii "options {
     LittleEndian = true;
     ArrayPrefixLenType = u64;
     FixedStringPadFromLeft = false;
 }
-
 packet Quote {
 }
-
 root packet Order {
     i64 Side2,
     Quote,
@@ -2289,631 +829,453 @@ root packet Order {
         [119, 147] : Quote,
     },
     u16 Flags @calculatedFrom(""CR\
-    C32""),
-}")).
-Eval vm_compute in ("<<<M1247>>>" ++ check (runes_of_ascii "packet As{ @calculatedFrom(
-""1"" // c
-)x_y_z f32a ,//	t
-repeat Packet, @leftPad
-( ' ' )float64
-msg_type @calculatedFrom(  ""it's"") `
-`
-,@lengthOf(/// triple
-i64_ ) // " ++ [128512]%N ++ runes_of_ascii " emoji
-trueish @lengthOf( charz )
-    ,
-    // trailing space 
-    @rightPad ( '0' //x
-)
-Z9_ `" ++ [233]%N ++ runes_of_ascii "`
-,
-} // c")).
-Eval vm_compute in ("<<<M1070>>>" ++ check (runes_of_ascii "// packet A { u8 x, }
-packet string_ {
-char[4294967296 ]charz , } packet _x//x
-{ }
-packet As
-    { // @lengthOf(
-} root
-    packet
-string_
-{ i64
-u128 ,// `tick` ""quote"" 'q'
-} root // packet A { u8 x, }
-packet
-Foo {match // " ++ [128512]%N ++ runes_of_ascii " emoji
-A as Pad{ 1 :	u128 } , }
-")).
-Eval vm_compute in ("<<<M4260>>>" ++ check (runes_of_ascii "packet charz {
-    repeat Z9_ x,
-    @calculatedFrom(""`tick`"")
-    string A `crlf
-    line`,
-    repeat crc {
-        repeat u8x,
-        char[42] x @lengthOf(o),
-    },
-}
-
-MetaData tag {
-    uint16 falsey `say ""hi""`,
-    i32 asx,
-    char[007] As,
-}")).
-Eval vm_compute in ("<<<M481>>>" ++ check (runes_of_ascii "MetaData	a1
-    { rootA
-i8i8 `crlf
-line`
-, } options { msg_type
-= 65535 Header  =false lengthOf = char[]	} packet stringy
-    { repeat chars chars `u8 x,` , }
-packet u128 // a // b
-{ repeat x
-    {  u16 As@calculatedFrom( ""`tick`""
-),} ,
+C32""),
 }
 ")).
-Eval vm_compute in ("<<<M1044>>>" ++ check (runes_of_ascii "
-options{ len //
-= false // " ++ [128512]%N ++ runes_of_ascii " emoji
-}	options
-    { leftPad =
-""`tick`"" ;repeatCount
-= char[// " ++ [128512]%N ++ runes_of_ascii " emoji
-4294967296
-// c
-// trailing space 
-]chars = ""`tick`""}packet trueish{ u16  crc,
-@tag( 0123456789 ) string trueish `crlf
-line` , }")).
-Eval vm_compute in ("<<<M2346>>>" ++ check (runes_of_ascii "MetaData Packet { }packet	asx  { @lengthOf( asx) falsey`crlf
-line`
+Eval vm_compute in ("<<<M1473>>>" ++ check (runes_of_ascii "packet Sub  {
+	u8
+a
+, @calculatedFrom(
+    ""CRC16"")  i16
+
+SubSum 
 ,
-    }
-    packet x	{uint32// @lengthOf(
-rootA	,u32 options1 `say ""hi""` , @tag( 7
-    )// packet A { u8 x, }
-msg_type msg_type @lengthOf(
-stringy	)	, }
 
-")).
-Eval vm_compute in ("<<<M2223>>>" ++ check (runes_of_ascii "MetaData Packet @tag( }packet	asx  { @lengthOf( asx) falsey`crlf
-line`
-,
-    }
-    packet x	{uint32// @lengthOf(
-rootA	,u32 options1 `say ""hi""` , @tag( 7
-    )// packet A { u8 x, }
-msg_type @lengthOf(
-stringy	)	, }
+    }root
+packet Frame 
+{ 
+u16
+MsgType , u16  BodyLen
+	@lengthOf(Body )	, 
+Sub
+    Body
+, 
+string note,
+@calculatedFrom(""CRC16""
+    )
+i16	Checksum  ,
 
+    u8 tail  ,}
 ")).
-Eval vm_compute in ("<<<M2384>>>" ++ check (runes_of_ascii "MetaData Packet { }packet	asx  { @lengthOf( asx) falsey`crlf
-line`
-,
-    }
-    packet x	{uint32// @lengthOf(
-rootA	,u32 options1 `say ""hi""` , @tag( 7
-    )// packet A { ''u8 x, }
-msg_type @lengthOf(
-stringy	)	, }
+Eval vm_compute in ("<<<M1670>>>" ++ check (runes_of_ascii "packet  Logon	{ 
+string user  ,
+	} root packet  Frame
 
-")).
-Eval vm_compute in ("<<<M2267>>>" ++ check (runes_of_ascii "MetaData Packet { }packet	asx  { @lengthOf( asx) falsey,
-`crlf
-line`
-    }
-    packet x	{uint32// @lengthOf(
-rootA	,u32 options1 `say ""hi""` , @tag( 7
-    )// packet A { u8 x, }
-msg_type @lengthOf(
-stringy	)	, }
+{
+	u8 K ,
+match
 
-")).
-Eval vm_compute in ("<<<M2285>>>" ++ check (runes_of_ascii "MetaData Packet { }packet	asx  { @lengthOf( asx) falsey`crlf
-line`
-,
-    }
-    packet 	{uint32// @lengthOf(
-rootA	,u32 options1 `say ""hi""` , @tag( 7
-    )// packet A { u8 x, }
-msg_type @lengthOf(
-stringy	)	, }
+K
+    as  Body{
+	1
+:
 
-")).
-Eval vm_compute in ("<<<M1259>>>" ++ check (runes_of_ascii "packet
-x_y_z//x
-{@tag(	0123456789
-    )match // " ++ [27880; 37322]%N ++ runes_of_ascii "
-T	as	roots
-{ 255 : asx ,[
-    1
-    //x
+    Logon  ,  2
+	:
+
+Logout,  }
+
     ,
-    3 , ""`tick`"" ] : Header 3
-    :
-    pack// " ++ [128512]%N ++ runes_of_ascii " emoji
-},u64  a1/// triple
-`tab	here`
+    Tail
 ,
-_x options1`{ , }` ,
-}")).
-Eval vm_compute in ("<<<M2353>>>" ++ check (runes_of_ascii "MetaData Packet { }packet	asx  { @lengthOf( asx) falsey`crlf
-line`
-,
-    }
-    packet x	{uint32// @lengthOf(
-rootA	,u32 options1 `say ""hi""` , @tag( 7
-    )// packet A { u8 x, }
-msg_type [
-stringy	)	, }
 
+    }	packet Logout {
+
+    u16
+    reason 
+,}	packet Tail 
+{u32
+
+crc
+,	}
 ")).
-Eval vm_compute in ("<<<M953>>>" ++ check (runes_of_ascii "
-root packet i64_
-    {rootA {	zchar[1 ]
-    packetx
-@calculatedFrom( ""1"" ),
-// @lengthOf(
-/// triple
-} ,
-} options // " ++ [128512]%N ++ runes_of_ascii " emoji
-{ chars = // trailing space 
-char[]  ; falsey
-    =
-    u32 ; } //x")).
-Eval vm_compute in ("<<<M1008>>>" ++ check (runes_of_ascii "MetaData stringy
-{ u len `line1
-line2`,zchar[42
-]
-pack
-    ,char[7 ] f32a //	t
-`say ""hi""` // @lengthOf(
-,
-    // a // b
-    char[
-    7] i8i8
-, }
-    packet// " ++ [128512]%N ++ runes_of_ascii " emoji
-float
-    { }
-// c
-")).
-Eval vm_compute in ("<<<M1118>>>" ++ check (runes_of_ascii "
-options{ // `tick` ""quote"" 'q'
-} options // packet A { u8 x, }
-{ As
-    = ""\n""
-// `tick` ""quote"" 'q'
-// a // b
-;	} MetaData
-    msg_type {string
-    trueish , } options { A= ""{,}"" ;}")).
-Eval vm_compute in ("<<<M1062>>>" ++ check (runes_of_ascii "packet body /// triple
-{ float32
-zchar @lengthOf(
-    x_y_z ), u64
-int @calculatedFrom(
-// trailing space 
+Eval vm_compute in ("<<<M547>>>" ++ check (runes_of_ascii "options
+{
+matchKey = 42/// triple
+x='0' ;
+// packet A { u8 x, }
 //
-""abc"" ) //x
-,
-    // " ++ [27880; 37322]%N ++ runes_of_ascii "
-    }
-root packet u
-    //x
-    { }
-")).
-Eval vm_compute in ("<<<M3798>>>" ++ check (runes_of_ascii "// top
-packet o {
-    // c2
-    @tag(42)
-    // c5
-    repeat x {
-        // c8
-        char[0123456789] i64_,// c13
-    },// c15
-}// c16
-
-options {
-    // c18
-}// c19")).
-Eval vm_compute in ("<<<M247>>>" ++ check (runes_of_ascii "packet
-Pad { } packet// packet A { u8 x, }
-len // a // b
-{ string u128 , } root packet o {
-@tag( 7
-) char[] msg_type @calculatedFrom( ""// no comment""
-)
-    ,}
-")).
-Eval vm_compute in ("<<<M4407>>>" ++ check (runes_of_ascii "packet A {
-    Inner {
-        match k as n {
-            [
-                1, 22, 007, 4, 5,
-                66, 7
-            ] : B,
-        },
-    },
-}")).
-Eval vm_compute in ("<<<M346>>>" ++ check (runes_of_ascii "packet BodyLength {repeat u128 charz ,
-i64 i64_
-@lengthOf(
-asx )
-,
-repeat
-    i64_ { repeat int `u8 x,` , //	t
-},repeat float32
-pack
-`" ++ [233]%N ++ runes_of_ascii "` ,
-    }")).
-Eval vm_compute in ("<<<M2334>>>" ++ check (runes_of_ascii "MetaData Packet { }packet	asx  { @lengthOf( asx) falsey`crlf
-line`
-,
-    }
-    packet x	{uint32// @lengthOf(
-rootA	,u32 options1 `say ""hi""` ,")).
-Eval vm_compute in ("<<<M1722>>>" ++ check (runes_of_ascii "root packet /// triple
-rootA {	i32
-MetaDataX@calculatedFrom( ""CRC32"" ) `line1
-lin@lengthOfe2` , } MetaData BodyLength {
-u8
-rootA, } // c")).
-Eval vm_compute in ("<<<M120>>>" ++ check (runes_of_ascii "root
-packet Header
-    // packet A { u8 x, }
-    { // " ++ [27880; 37322]%N ++ runes_of_ascii "
-@lengthOf(
-rootA // a // b
-) int8 Foo//
-@lengthOf(	uint8x)`tab	here`
-,}
-")).
-Eval vm_compute in ("<<<M1173>>>" ++ check (runes_of_ascii "  options { BodyLength=
+charz
+=
+// packet A { u8 x, }
 // trailing space 
-// a // b
-char[]
-    ; lengthOf =
-    // @lengthOf(
-    i8 asx = 7 ; rootA= ""a\""b"" ; }
+true  ; } MetaData BodyLength
+{
+uint8
+pack,zchar[ 1]float ,  float32 x_y_z `` ,u32
+_x,i16 i16 body  , }
 ")).
-Eval vm_compute in ("<<<M1640>>>" ++ check (runes_of_ascii "root packet /// triple
-rootA }	i32
-MetaDataX@calculatedFrom( ""CRC32"" ) `line1
-line2` , } MetaData BodyLength {
-u8
-rootA, } // c")).
-Eval vm_compute in ("<<<M874>>>" ++ check (runes_of_ascii "  options { Logon = 007	leftPad= true
-; repeatCount =
-    // trailing space 
-    0
-    // a // b
-    u =	i32
-; f32a
-='0';
-}
-
+Eval vm_compute in ("<<<M570>>>" ++ check (runes_of_ascii "options
+~ {
+matchKey = 42/// triple
+x='0' ;
+// packet A { u8 x, }
+//
+charz
+=
+// packet A { u8 x, }
+// trailing space 
+true  ; } MetaData BodyLength
+{
+uint8
+pack,zchar[ 1]float ,  float32 x_y_z `` ,u32
+_x,i16 body  , }
 ")).
-Eval vm_compute in ("<<<M1045>>>" ++ check (runes_of_ascii "MetaData calculatedFrom { zchar[ 10]
-    u128 `doc` ,zchar[ 0123456789 ]
-    packetx ,char[]// trailing space 
-MetaDataX
+Eval vm_compute in ("<<<M428>>>" ++ check (runes_of_ascii "options
+{
+matchKey = 42/// triple
+x='0' charz
+// packet A { u8 x, }
+//
+;
+=
+// packet A { u8 x, }
+// trailing space 
+true  ; } MetaData BodyLength
+{
+uint8
+pack,zchar[ 1]float ,  float32 x_y_z `` ,u32
+_x,i16 body  , }
+")).
+Eval vm_compute in ("<<<M416>>>" ++ check (runes_of_ascii "options
+{
+matchKey = 42/// triple
+x'0' ;
+// packet A { u8 x, }
+//
+charz
+=
+// packet A { u8 x, }
+// trailing space 
+true  ; } MetaData BodyLength
+{
+uint8
+pack,zchar[ 1]float ,  float32 x_y_z `` ,u32
+_x,i16 body  , }
+")).
+Eval vm_compute in ("<<<M1203>>>" ++ check (runes_of_ascii "// top
+packet // c0
+o // c1
+{ // c2
+@tag( // c3
+42 // c4
+) // c5
+repeat // c6
+x // c7
+{ // c8
+char[ // c9
+0123456789 // c10
+] // c11
+i64_ // c12
+, // c13
+} // c14
+, // c15
+} // c16
+options // c17
+{ // c18
+} // c19
+")).
+Eval vm_compute in ("<<<M33>>>" ++ check (runes_of_ascii "packet BodyLength{//	t
+x
+f32a
+    `line1
+line2`
 ,
-}")).
-Eval vm_compute in ("<<<M1856>>>" ++ check (runes_of_ascii "packet
-    Pad // a // b
-{ i8i8 @calculatedFrom( ""a	b"") `u8 x,` ,
-} options{ float// " ++ [128512]%N ++ runes_of_ascii " emoji
-= f64 i64_ i64_
-=//	t
-00 }
-")).
-Eval vm_compute in ("<<<M3831>>>" ++ check (runes_of_ascii "//	t
+@calculatedFrom( ""a\\""
+)@lengthOf(
+repeatCount
+) i8 Header
+    `{ , }` ,float64	leftPad@calculatedFrom(	""\" ++ [233]%N ++ runes_of_ascii """)
+,@calculatedFrom(  ""1"") uint64 o, } 	 ")).
+Eval vm_compute in ("<<<M569>>>" ++ check (runes_of_ascii "options
+{
+matchKey = 42/// triple
+x='0' ;
+// packet A { u8 x, }
+//
+charz
+=
+// packet A { u8 x, }
+// trailing space 
+true  ; } MetaData BodyLength
+{
+uint8
+pack,zchar[ 1]float ,  float3")).
+Eval vm_compute in ("<<<M1650>>>" ++ check (runes_of_ascii "packet MetaDataX {
+    match Header as zchar {
+        0 : pack,
+        [42, 65535] : crc,
+    },// @lengthOf(
+    @tag(1)
+    @rightPad(' ')
+    int64 Foo,
+}// packet A { u8 x, }")).
+Eval vm_compute in ("<<<M1723>>>" ++ check (runes_of_ascii "packet Foo {
+    uint64 Header @lengthOf(float) `
+    `,// a // b
+    char[] _x,
+    @tag(10)
+    char[] Packet,
+    uint16 stringy @lengthOf(calculatedFrom),
+}//x
+
 options {
-    // c
+}")).
+Eval vm_compute in ("<<<M1520>>>" ++ check (runes_of_ascii "
+options	{
+    Logon=	""{,}""
+    }	//	t
+
+  MetaData
+	leftPad {i8 zchar 
+`// not a comment`
+	,}MetaData	len{char[] u128  , }	// " ++ [27880; 37322]%N ++ runes_of_ascii "
+  root
+
+    packet
+Pad
+	{
+    }
+")).
+Eval vm_compute in ("<<<M475>>>" ++ check (runes_of_ascii "options
+{
+matchKey = 42/// triple
+x='0' ;
+// packet A { u8 x, }
+//
+charz
+=
+// packet A { u8 x, }
+// trailing space 
+true  ; } MetaData BodyLength
+{")).
+Eval vm_compute in ("<<<M1716>>>" ++ check (runes_of_ascii "  packet
+A
+{	match  k
+as
+	n
+    { [  1 ,
+	22 
+,
+
+""c c"", 
+4
+    ,
+    5
+,
+
+    ""f"" ,
+
+    7,8, ""i"" 
+,
+	10]
+: B
+
+    ,	2 :
+	C } ,
 }
 
-MetaData asx {
-    float64 x_y_z,
-}
+")).
+Eval vm_compute in ("<<<M1984>>>" ++ check (runes_of_ascii "  packet 
+A
+{  u16
 
-options {
-    // packet A { u8 x, }
-    stringy = '0';
+    len
+@lengthOf(body
+	) `a
+b`	,
+u32
+	crc@calculatedFrom(
+""CRC32""  ) 
+`a
+b`
+
+    ,
+string
+body ,
+} ")).
+Eval vm_compute in ("<<<M287>>>" ++ check (runes_of_ascii "
+MetaData Pad { int64 roots ,body u128
+    //x
+    , float64 x // trailing space 
+, int32
+    chars , A options1 `
+`,
+    }
+")).
+Eval vm_compute in ("<<<M1769>>>" ++ check (runes_of_ascii "packet A {
+    u16 len @lengthOf(body) `
+        `,
+    u32 crc @calculatedFrom(""CRC32"") `
+        `,
+    string body,
 }")).
-Eval vm_compute in ("<<<M1843>>>" ++ check (runes_of_ascii "packet
-    Pad // a // b
-{ i8i8 @calculatedFrom( ""a	b"") `u8 x,` ,
-} options{ repeat// " ++ [128512]%N ++ runes_of_ascii " emoji
-= f64 i64_
-=//	t
-00 }
+Eval vm_compute in ("<<<M1628>>>" ++ check (runes_of_ascii "
+packet
+calculatedFrom	{ @tag( 4294967296  )	// c
+	u
+
+msg_type,
+char[ 
+3
+	]	crc
+
+@lengthOf(
+    len
+	)
+
+`u8 x,` , }
 ")).
-Eval vm_compute in ("<<<M1822>>>" ++ check (runes_of_ascii "packet
-    Pad // a // b
-{ i8i8 @calculatedFrom( ""a	b"") `u8 x,` }
-, options{ float// " ++ [128512]%N ++ runes_of_ascii " emoji
-= f64 i64_
-=//	t
-00 }
-")).
-Eval vm_compute in ("<<<M3792>>>" ++ check (runes_of_ascii "packet A {
+Eval vm_compute in ("<<<M1610>>>" ++ check (runes_of_ascii "packet A {
     u16 len @lengthOf(body) `a
     b`,
     u32 crc @calculatedFrom(""CRC32"") `a
     b`,
     string body,
 }")).
-Eval vm_compute in ("<<<M1483>>>" ++ check (runes_of_ascii "root packet Foo // " ++ [128512]%N ++ runes_of_ascii " emoji
-{ } options {
-    // a // b
-    tag // `tick` ""quote"" 'q'
-= //	t
-""""
-    ; u8x = zchar[")).
-Eval vm_compute in ("<<<M4389>>>" ++ check (runes_of_ascii "packet o 
+Eval vm_compute in ("<<<M1481>>>" ++ check (runes_of_ascii "
+packet
+	Logon
+	{ @tag(
+42 )
+	@rightPad (' '
+
+    ) @leftPad (
+) repeat trueish{ // c
+
+  string T 
+,} 
+,	}
+
+")).
+Eval vm_compute in ("<<<M1697>>>" ++ check (runes_of_ascii "
+packet
+Logon
 {
-    @tag( 
-42
+@tag(
 
-    )
-	repeat
-    x{
-    char[
-	0123456789 ]	i64_
-    // c
-,
+42	)
 
-}	,
-} options	{	}
+@rightPad(	' '
+)
+
+    @leftPad
+() repeat // c
+  trueish
+
+{string	T	,}, 
+}
 ")).
-Eval vm_compute in ("<<<M862>>>" ++ check (runes_of_ascii "MetaData// " ++ [27880; 37322]%N ++ runes_of_ascii "
-Pad { roots options1`tab	here`
-, //	t
-char[ 0123456789
-// `tick` ""quote"" 'q'
-// c
-] Foo , }
+Eval vm_compute in ("<<<M911>>>" ++ check (runes_of_ascii "packet A {
+  match k as n {
+    [1, 22, ""c c"", 4, 5, ""f"", 7, 8, ""i"", 10, 11, ""l""] : B,
+    2 : C
+  },
+}")).
+Eval vm_compute in ("<<<M1281>>>" ++ check (runes_of_ascii "packet calculatedFrom { @tag( 4294967296 ) u msg_type , char[ 3 ] crc @lengthOf( len // c
+) `u8 x,` , }")).
+Eval vm_compute in ("<<<M949>>>" ++ check (runes_of_ascii "packet A {
+    Inner {
+        u8 x `x
+`,
+        Deep {
+            u8 y `x
+`,
+        },
+    },
+}")).
+Eval vm_compute in ("<<<M327>>>" ++ check (runes_of_ascii "MetaData
+    // " ++ [128512]%N ++ runes_of_ascii " emoji
+    msg_type { As  roots , i32  rootA, f64 falsey  ,
+char[]
+rootA ,}
 ")).
-Eval vm_compute in ("<<<M901>>>" ++ check (runes_of_ascii "
-MetaData x{
-a1 // c
-repeatCount // packet A { u8 x, }
-`" ++ [233]%N ++ runes_of_ascii "` , u64 falsey //	t
-`" ++ [233]%N ++ runes_of_ascii "` ,  i64_ matchKey , }
-")).
-Eval vm_compute in ("<<<M3350>>>" ++ check (runes_of_ascii "packet calculatedFrom { @tag( 4294967296 )
+Eval vm_compute in ("<<<M1159>>>" ++ check (runes_of_ascii "packet Logon { @tag( 42 ) @rightPad ( ' ' ) @leftPad ( ) repeat trueish
 // c
-u msg_type , char[ 3 ] crc @lengthOf( len ) `u8 x,` , }")).
-Eval vm_compute in ("<<<M2952>>>" ++ check (runes_of_ascii "packet A {
+{ string T , } , }")).
+Eval vm_compute in ("<<<M891>>>" ++ check (runes_of_ascii "packet A {
   match k as n {
-    [""a"", ""bb"", ""c c"", ""d"", ""e"", ""f"", ""g"", ""h"", ""i""] : B,
+    [1, 22, 007, 4, 5, 66, 7, 8, 9, 10, 11] : B
     2 : C
   },
 }")).
-Eval vm_compute in ("<<<M4265>>>" ++ check (runes_of_ascii "  packet
-
-T
-
-{ 
-@lengthOf(	As	)
-    u8x	`tab	here`  , }MetaData
-    f32a{uint64
-
-    trueish, 
-} ")).
-Eval vm_compute in ("<<<M2990>>>" ++ check (runes_of_ascii "packet A {
+Eval vm_compute in ("<<<M675>>>" ++ check (runes_of_ascii "// c
+packet i64_ {	char[] calculatedFrom , } packet
+trueish  {@calculatedFrom(
+""a\\"" ) o")).
+Eval vm_compute in ("<<<M842>>>" ++ check (runes_of_ascii "packet A {
   match k as n {
-    [1, 22, 007, 4, 5, 66, 7, 8, 9, 10, 11, 12] : B
+    [1, ""bb"", 007, ""d"", 5, ""f"", 7] : B,
     2 : C
   },
 }")).
-Eval vm_compute in ("<<<M3226>>>" ++ check (runes_of_ascii "packet Logon { @tag( 42 ) // c
-@rightPad ( ' ' ) @leftPad ( ) repeat trueish { string T , } , }")).
-Eval vm_compute in ("<<<M3706>>>" ++ check (runes_of_ascii "MetaData charz {
-    Pad tag `two words`,
-    u32 matchKey,
-    u128 Foo,
-    char[255] body,
-}")).
-Eval vm_compute in ("<<<M2954>>>" ++ check (runes_of_ascii "packet A {
-  match k as n {
-    [1, ""bb"", 007, ""d"", 5, ""f"", 7, ""h"", 9] : B,
-    2 : C
-  },
-}")).
-Eval vm_compute in ("<<<M4318>>>" ++ check (runes_of_ascii "
-options{	T  =
-' 'asx
-= '\x00'	; 
-falsey 	 /// triple
-    =' ' 
-// " ++ [128512]%N ++ runes_of_ascii " emoji
-// c
-    } ")).
-Eval vm_compute in ("<<<M1681>>>" ++ check (runes_of_ascii "root packet /// triple
-rootA {	i32
-MetaDataX@calculatedFrom( ""CRC32"" ) `line1
-line2` ,")).
-Eval vm_compute in ("<<<M2037>>>" ++ check (runes_of_ascii "r#oot
-packet crc
-    { f32a @calculatedFrom( """ ++ [233]%N ++ runes_of_ascii "t" ++ [233]%N ++ runes_of_ascii """ )
-    `say ""hi""`, lengthOf `` ,  }")).
-Eval vm_compute in ("<<<M2800>>>" ++ check (runes_of_ascii "@tag( ) true @calculatedFrom( repeat ] as `say ""hi""` char[ MetaData i32 int16 i32 f32")).
-Eval vm_compute in ("<<<M2011>>>" ++ check (runes_of_ascii "root
-packet crc
-    { f32a @calculatedFrom( """ ++ [233]%N ++ runes_of_ascii "t" ++ [233]%N ++ runes_of_ascii """ )
-    `say ""hi""`, lengthOf  ,  }")).
-Eval vm_compute in ("<<<M3292>>>" ++ check (runes_of_ascii "// c
-packet o { @tag( 42 ) repeat x { char[ 0123456789 ] i64_ , } , } options { }")).
-Eval vm_compute in ("<<<M3325>>>" ++ check (runes_of_ascii "packet o { @tag( 42 ) repeat x { char[ 0123456789 ] i64_ , } ,
-// c
-} options { }")).
-Eval vm_compute in ("<<<M946>>>" ++ check (runes_of_ascii "
-MetaData As
-    { } // @lengthOf(
-MetaData  crc {
-float64 lengthOf `it's` , }")).
-Eval vm_compute in ("<<<M2887>>>" ++ check (runes_of_ascii "packet A {
-  match k as n {
-    [""a"", ""bb"", ""c c"", ""d""] : B,
-    2 : C
-  },
-}")).
-Eval vm_compute in ("<<<M2903>>>" ++ check (runes_of_ascii "packet A {
-  match k as n {
-    [1, ""bb"", 007, ""d"", 5] : B
-    2 : C
-  },
-}")).
-Eval vm_compute in ("<<<M4285>>>" ++ check (runes_of_ascii "packet
-A
+Eval vm_compute in ("<<<M1210>>>" ++ check (runes_of_ascii "packet o // c
+{ @tag( 42 ) repeat x { char[ 0123456789 ] i64_ , } , } options { }")).
+Eval vm_compute in ("<<<M1242>>>" ++ check (runes_of_ascii "packet o { @tag( 42 ) repeat x { char[ 0123456789 ] i64_ , } , } options // c
+{ }")).
+Eval vm_compute in ("<<<M46>>>" ++ check (runes_of_ascii "options
     {
-match  k
-as
-	n
-	{
-
-    [	""a"",
-22  ]  :B
-2:
-	C
-
-} ,
-}
-
+    }packet
+    repeatCount { // `tick` ""quote"" 'q'
+}options{}
 ")).
-Eval vm_compute in ("<<<M2169>>>" ++ check (runes_of_ascii "root
-    // `tick` ""quote"" 'q'
-    packet As false trueish Packet , }
-")).
-Eval vm_compute in ("<<<M4426>>>" ++ check (runes_of_ascii "
-
-  // " ++ [128512]%N ++ runes_of_ascii " emoji
-  packet
-
-roots 
-// trailing space 
-{} // @lengthOf(
-")).
-Eval vm_compute in ("<<<M2207>>>" ++ check (runes_of_ascii "\ root
-    // `tick` ""quote"" 'q'
-    packet As { trueish Packet , }
-")).
-Eval vm_compute in ("<<<M2155>>>" ++ check (runes_of_ascii "packet
-    // `tick` ""quote"" 'q'
-    root As { trueish Packet , }
-")).
-Eval vm_compute in ("<<<M4121>>>" ++ check (runes_of_ascii "packet  A
-    {B b  `a
-b` ,B `a
-b`, repeat B
-
-    bs `a
-b`	,
-}
-")).
-Eval vm_compute in ("<<<M1453>>>" ++ check (runes_of_ascii "root packet Foo // " ++ [128512]%N ++ runes_of_ascii " emoji
-{ } options {
-    // a // b
-    tag")).
-Eval vm_compute in ("<<<M2157>>>" ++ check (runes_of_ascii "root
-    // `tick` ""quote"" 'q'
-     As { trueish Packet , }
-")).
-Eval vm_compute in ("<<<M2694>>>" ++ check (runes_of_ascii "true MetaDataX as ""a\""b"" = u64 : i64 int16 @lengthOf( char")).
-Eval vm_compute in ("<<<M57>>>" ++ check (runes_of_ascii "MetaData stringy { uint8
-//x
-// @lengthOf(
-string_
-, }
-")).
-Eval vm_compute in ("<<<M2269>>>" ++ check (runes_of_ascii "MetaData Packet { }packet	asx  { @lengthOf( asx) falsey")).
-Eval vm_compute in ("<<<M3737>>>" ++ check (runes_of_ascii "  MetaData
-	zchar {	zchar[
-	3  ]Pad
-,
-
-    }	// c")).
-Eval vm_compute in ("<<<M3164>>>" ++ check (runes_of_ascii "packet A { u8 x, } // a
-// b
-packet B {} // c
-// d")).
-Eval vm_compute in ("<<<M841>>>" ++ check (runes_of_ascii "root
-// @lengthOf(
-// @lengthOf(
-packet f32a
+Eval vm_compute in ("<<<M1534>>>" ++ check (runes_of_ascii "  MetaData
+stringy 
+{  char[  0	]
+    chars	// @lengthOf(
+  `{ , }`
+, } ")).
+Eval vm_compute in ("<<<M755>>>" ++ check (runes_of_ascii "match u16 match zchar[ '\x00' true [ false ) @lengthOf( ""a\\"" float32 }")).
+Eval vm_compute in ("<<<M1324>>>" ++ check (runes_of_ascii "MetaData _x { zchar[ 4294967296 ] lengthOf `// not a comment`
+// c
+, }")).
+Eval vm_compute in ("<<<M1616>>>" ++ check (runes_of_ascii "root packet P {
+    u16 a,
+    u32 Sum @calculatedFrom(""CRC32""),
+}")).
+Eval vm_compute in ("<<<M738>>>" ++ check (runes_of_ascii "'0' '\x00' 255 rootA root string '0' match zchar[ ( uint16 ,")).
+Eval vm_compute in ("<<<M643>>>" ++ check (runes_of_ascii "MetaData
+    // trailing space 
+    matchKey
+{ u64 char")).
+Eval vm_compute in ("<<<M1293>>>" ++ check (runes_of_ascii "// top
+packet
+    // c0
+lengthOf {
+    // c2
+} ")).
+Eval vm_compute in ("<<<M430>>>" ++ check (runes_of_ascii "options
 {
+matchKey = 42/// triple
+x='0'")).
+Eval vm_compute in ("<<<M345>>>" ++ check (runes_of_ascii "options
+{ Logon = //x
+'\x00'
+    ; }
+")).
+Eval vm_compute in ("<<<M1693>>>" ++ check (runes_of_ascii "options	// c
+    { u8x  =
+    3}
+")).
+Eval vm_compute in ("<<<M977>>>" ++ check (runes_of_ascii "packet A {
+ u8 x `d `, // c 
 }")).
-Eval vm_compute in ("<<<M2581>>>" ++ check (runes_of_ascii "packet A { char[] x @calculatedFrom(""c"") `d`, }")).
-Eval vm_compute in ("<<<M405>>>" ++ check (runes_of_ascii "options
-    { x
-=
-    //	t
-    zchar[65535 ]}")).
-Eval vm_compute in ("<<<M2831>>>" ++ check (runes_of_ascii "char[ ( true f32 packet u64 255 string false")).
-Eval vm_compute in ("<<<M1719>>>" ++ check (runes_of_ascii "root packet /// triple
-rootA {	i32
-MetaDa")).
-Eval vm_compute in ("<<<M4045>>>" ++ check (runes_of_ascii "
+Eval vm_compute in ("<<<M266>>>" ++ check (runes_of_ascii "options
+{Packet=
+char[] }")).
+Eval vm_compute in ("<<<M1190>>>" ++ check (runes_of_ascii "options { u8x
+// c
+= 3 }")).
+Eval vm_compute in ("<<<M182>>>" ++ check (runes_of_ascii "root packet As { }
 
-  options{ metadata
-=""packet""
+")).
+Eval vm_compute in ("<<<M1005>>>" ++ check (runes_of_ascii "packet A {
+}
+// c" ++ [8202]%N)).
+Eval vm_compute in ("<<<M983>>>" ++ check (runes_of_ascii "packet A {
+}// c" ++ [160]%N)).
+Eval vm_compute in ("<<<M1866>>>" ++ check (runes_of_ascii "
 
-    }")).
-Eval vm_compute in ("<<<M3193>>>" ++ check (runes_of_ascii "MetaData zchar
-// c
-{ zchar[ 3 ] Pad , }")).
-Eval vm_compute in ("<<<M2149>>>" ++ check (runes_of_ascii "Met" ++ [0]%N ++ runes_of_ascii "aData x
-{// " ++ [128512]%N ++ runes_of_ascii " emoji
-i16 stringy , }")).
-Eval vm_compute in ("<<<M3730>>>" ++ check (runes_of_ascii "MetaData u128 {
-    uint32 lengthOf,
-}")).
-Eval vm_compute in ("<<<M2194>>>" ++ check (runes_of_ascii "root
-    // `tick` ""quote"" 'q'
-    p")).
-Eval vm_compute in ("<<<M2589>>>" ++ check (runes_of_ascii "packet A { x @calculatedFrom(c), }")).
-Eval vm_compute in ("<<<M1766>>>" ++ check (runes_of_ascii "options { }options {  } // `tick")).
-Eval vm_compute in ("<<<M3884>>>" ++ check (runes_of_ascii "packet A {
-    // a
-    u8 x,
-}")).
-Eval vm_compute in ("<<<M3118>>>" ++ check (runes_of_ascii "packet A {
- u8 x `d" ++ [11]%N ++ runes_of_ascii "`, // c" ++ [11]%N ++ runes_of_ascii "
-}")).
-Eval vm_compute in ("<<<M2059>>>" ++ check (runes_of_ascii "MetaData A match u64 pack, }")).
-Eval vm_compute in ("<<<M2731>>>" ++ check ([14; 3]%N ++ runes_of_ascii "AV" ++ [65533; 65533; 65533]%N ++ runes_of_ascii "r" ++ [4]%N ++ runes_of_ascii "+{e" ++ [65533; 65533; 65533]%N ++ runes_of_ascii ";&" ++ [65533; 65533; 3; 3; 65533]%N ++ runes_of_ascii "Q" ++ [65533]%N ++ runes_of_ascii "+G" ++ [5]%N)).
-Eval vm_compute in ("<<<M2625>>>" ++ check (runes_of_ascii "packet A { u8 x, @tag(1) }")).
-Eval vm_compute in ("<<<M3282>>>" ++ check (runes_of_ascii "options { u8x = 3 }
-// c
+  // c 	
 ")).
-Eval vm_compute in ("<<<M3274>>>" ++ check (runes_of_ascii "options {
-// c
-u8x = 3 }")).
-Eval vm_compute in ("<<<M2703>>>" ++ check (runes_of_ascii "U" ++ [65533]%N ++ runes_of_ascii "D" ++ [65533; 65533]%N ++ runes_of_ascii "4O	" ++ [65533; 65533]%N ++ runes_of_ascii "a" ++ [65533; 65533]%N ++ runes_of_ascii "P" ++ [65533; 8; 65533; 27]%N ++ runes_of_ascii "H" ++ [65533; 426]%N ++ runes_of_ascii "F" ++ [65533]%N)).
-Eval vm_compute in ("<<<M3600>>>" ++ check (runes_of_ascii "packet A {
-} 	 // c" ++ [12288]%N ++ runes_of_ascii "
-")).
-Eval vm_compute in ("<<<M477>>>" ++ check (runes_of_ascii "MetaData pack
-{ } 	 ")).
-Eval vm_compute in ("<<<M2643>>>" ++ check (runes_of_ascii "MetaData M { x y, }")).
-Eval vm_compute in ("<<<M2747>>>" ++ check ([65533; 65533; 1; 65533; 65533; 65533; 65533]%N ++ runes_of_ascii "@" ++ [65533; 767]%N ++ runes_of_ascii "<x2" ++ [65533; 65533]%N ++ runes_of_ascii "Xq" ++ [65533]%N)).
-Eval vm_compute in ("<<<M3124>>>" ++ check (runes_of_ascii "packet A {
-}// c 	")).
-Eval vm_compute in ("<<<M3064>>>" ++ check (runes_of_ascii "packet A {
-}// c" ++ [12288]%N)).
-Eval vm_compute in ("<<<M126>>>" ++ check (runes_of_ascii "packet	float{ }")).
-Eval vm_compute in ("<<<M4263>>>" ++ check (runes_of_ascii "packet crc {
-}")).
-Eval vm_compute in ("<<<M2791>>>" ++ check (runes_of_ascii "f['U26$ht_8")).
-Eval vm_compute in ("<<<M2455>>>" ++ check (runes_of_ascii "optionss")).
-Eval vm_compute in ("<<<M2423>>>" ++ check (runes_of_ascii "char[]")).
-Eval vm_compute in ("<<<M2458>>>" ++ check (runes_of_ascii "roots")).
-Eval vm_compute in ("<<<M3890>>>" ++ check (runes_of_ascii "
-// x")).
-Eval vm_compute in ("<<<M2134>>>" ++ check (runes_of_ascii "Met")).
-Eval vm_compute in ("<<<M56>>>" ++ check (runes_of_ascii "
-")).
-Eval vm_compute in ("<<<M2532>>>" ++ check (runes_of_ascii "_")).
+Eval vm_compute in ("<<<M1014>>>" ++ check (runes_of_ascii "// c" ++ [8233]%N)).
